@@ -5,6 +5,7 @@ import ast
 
 from vlib.cfg import CFG
 from vlib.core import AnalysisError, Repo, Report, norm, own_nodes
+from vlib.core import layer as _layer
 
 EXPLANATION = (
     "(a) the aggregate names of the grammar and the keys of Aggregator.accumulator_classes are the same set and map to "
@@ -15,7 +16,7 @@ EXPLANATION = (
     "are start and start+length with `length is not None` tested by identity; (e) ORDER BY: keys are applied last-to-first with "
     "the stable sorted(), direction via its reverse= argument, never by reversing the list; (f) DISTINCT/REDUCED remember the "
     "solution itself; projection keeps exactly project.PV. Numeric promotion, mixed-term ordering and HAVING after aliasing "
-    "are value-level and not decided."
+    "are value-level and not decided. Every rule is a layer of its own (vlib/core.layer): it is judged alone on the tree and on the equivalent views."
 )
 
 
@@ -26,36 +27,35 @@ def run(repo: Repo, rep: Report) -> None:
     par = repo.mod("rdflib.plugins.sparql.parser")
     typed = repo.typed
 
-    # ------------------------------------------------------------------ (a)
-    rep.rule("C08.a-aggregate-table", "grammar aggregate names == keys of Aggregator.accumulator_classes, each mapped to an Accumulator subclass", floor=7)
-    gram = set()
-    for n in ast.walk(par.tree):
-        if isinstance(n, ast.Call) and isinstance(n.func, ast.Name) and n.func.id == "Comp" and n.args and isinstance(n.args[0], ast.Constant) and str(n.args[0].value).startswith("Aggregate_"):
-            gram.add(n.args[0].value)
-    table = {}
-    agg_cls = ag.cls("Aggregator")
-    for st in agg_cls.body:
-        if isinstance(st, ast.Assign) and norm(st.targets[0]) == "accumulator_classes" and isinstance(st.value, ast.Dict):
-            for k, v in zip(st.value.keys, st.value.values):
-                table[k.value] = norm(v)
-    if len(gram) < 7 or len(table) < 7:
-        raise AnalysisError("aggregate tables not found (grammar %s, table %s)" % (sorted(gram), sorted(table)))
-    for nm in sorted(gram | set(table)):
-        cls = table.get(nm)
-        ok = nm in gram and cls is not None and ag.has(cls) and typed.is_subclass("rdflib.plugins.sparql.aggregates." + cls, "rdflib.plugins.sparql.aggregates.Accumulator")
-        rep.ob("C08.a-aggregate-table", ag, "Aggregator", "%s -> %s" % (nm, cls), ok,
-               "" if ok else "aggregate %s: in grammar=%s, accumulator class=%s" % (nm, nm in gram, cls), node=agg_cls)
+    def _sec_a(repo: Repo, rep: Report) -> None:
+        # ------------------------------------------------------------------ (a)
+        rep.rule("C08.a-aggregate-table", "grammar aggregate names == keys of Aggregator.accumulator_classes, each mapped to an Accumulator subclass", floor=7)
+        gram = set()
+        for n in ast.walk(par.tree):
+            if isinstance(n, ast.Call) and isinstance(n.func, ast.Name) and n.func.id == "Comp" and n.args and isinstance(n.args[0], ast.Constant) and str(n.args[0].value).startswith("Aggregate_"):
+                gram.add(n.args[0].value)
+        table = {}
+        agg_cls = ag.cls("Aggregator")
+        for st in agg_cls.body:
+            if isinstance(st, ast.Assign) and norm(st.targets[0]) == "accumulator_classes" and isinstance(st.value, ast.Dict):
+                for k, v in zip(st.value.keys, st.value.values):
+                    table[k.value] = norm(v)
+        if len(gram) < 7 or len(table) < 7:
+            raise AnalysisError("aggregate tables not found (grammar %s, table %s)" % (sorted(gram), sorted(table)))
+        for nm in sorted(gram | set(table)):
+            cls = table.get(nm)
+            ok = nm in gram and cls is not None and ag.has(cls) and typed.is_subclass("rdflib.plugins.sparql.aggregates." + cls, "rdflib.plugins.sparql.aggregates.Accumulator")
+            rep.ob("C08.a-aggregate-table", ag, "Aggregator", "%s -> %s" % (nm, cls), ok,
+                   "" if ok else "aggregate %s: in grammar=%s, accumulator class=%s" % (nm, nm in gram, cls), node=agg_cls)
+
+    _layer(rep, _sec_a, repo)
 
     # ------------------------------------------------------------------ (b)(c)
-    rep.rule("C08.b-distinct-bookkeeping",
-             "each Accumulator subclass with its own update() either opts out of DISTINCT in __init__ (self.use_row = self.dont_care) "
-             "or, on every path of update() that changes its accumulated state, reaches `if self.distinct: self.seen.add(<the evaluated value>)`", floor=5)
-    rep.rule("C08.c-empty-group-values",
-             "get_value()/set_value() of every accumulator read only attributes that __init__ (own or inherited) initialises, so the "
-             "value for a group that received no row is defined; with no GROUP BY the implicit group's Aggregator is created outside the row loop", floor=6)
-    accs = [c for c in typed.subclasses("rdflib.plugins.sparql.aggregates.Accumulator") if c.startswith("rdflib.plugins.sparql.aggregates.")]
-    if len(accs) < 8:
-        raise AnalysisError("expected >= 8 accumulator classes, found %s" % accs)
+    def accumulators() -> list[str]:
+        accs = [c for c in typed.subclasses("rdflib.plugins.sparql.aggregates.Accumulator") if c.startswith("rdflib.plugins.sparql.aggregates.")]
+        if len(accs) < 8:
+            raise AnalysisError("expected >= 8 accumulator classes, found %s" % accs)
+        return accs
 
     def init_attrs(cfull: str) -> set[str]:
         out = set()
@@ -120,279 +120,319 @@ def run(repo: Repo, rep: Report) -> None:
             return True
         return False
 
-    for cfull in sorted(accs):
-        cname = cfull.rsplit(".", 1)[1]
-        if cname == "Accumulator":
-            continue
-        meths = ag.methods(cname)
-        rep.analysed("rdflib/plugins/sparql/aggregates.py:" + cname)
-        if "update" in meths:
-            upd = meths["update"]
-            if opts_out(cfull):
-                rep.ob("C08.b-distinct-bookkeeping", ag, cname + ".update", "opts out of DISTINCT", True,
-                       "use_row = dont_care in __init__: DISTINCT does not change this aggregate's value", node=upd)
-            else:
-                g = CFG(upd)
-                state_nodes = []
-                for nd in g.nodes:
-                    st = nd.ast
-                    if nd.kind != "stmt" or st is None:
-                        continue
-                    tg = []
-                    if isinstance(st, ast.Assign):
-                        tg = st.targets
-                    elif isinstance(st, ast.AugAssign):
-                        tg = [st.target]
-                    # (a boolean constant stored in an attribute is a flag - "this aggregate is an error" - not accumulated state)
-                    is_flag = isinstance(getattr(st, "value", None), ast.Constant) and isinstance(st.value.value, bool)
-                    if not is_flag and any(isinstance(t, ast.Attribute) and isinstance(t.value, ast.Name) and t.value.id == "self" and t.attr not in ("datatype", "seen") for t in tg):
-                        state_nodes.append(nd.id)
-                    if isinstance(st, ast.Expr) and isinstance(st.value, ast.Call) and isinstance(st.value.func, ast.Attribute) and st.value.func.attr in ("append", "extend") \
-                            and norm(st.value.func.value).startswith("self.") and "seen" not in norm(st.value.func.value):
-                        state_nodes.append(nd.id)
-                marks = set()
-                recorded = None
-                for n in own_nodes(upd):
-                    if isinstance(n, ast.If) and norm(n.test) == "self.distinct":
-                        adds = [c for s in n.body for c in ast.walk(s) if isinstance(c, ast.Call) and norm(c.func) == "self.seen.add"]
-                        if adds:
-                            marks.add(g.by_ast[id(n)])
-                            recorded = norm(adds[0].args[0])
-                if not state_nodes:
-                    raise AnalysisError("%s.update: no state update found" % cname)
-                ok = bool(marks) and all(g.must_pass_after(s, marks, skip_exc=True) or g.must_pass_before(s, marks) for s in state_nodes)
-                rep.ob("C08.b-distinct-bookkeeping", ag, cname + ".update", "state update => if self.distinct: self.seen.add(...)", ok,
-                       "every updating path records the value" if ok else "a path updates the accumulator without recording the value in `seen` under `if self.distinct`: DISTINCT counts/sums duplicates", node=upd)
-                if ok and recorded is not None:
-                    src_ok = False
-                    for n in own_nodes(upd):
-                        if isinstance(n, ast.Assign) and norm(n.targets[0]) == recorded:
-                            if evaluates_expr(cfull, n.value):
-                                src_ok = True
-                    rep.ob("C08.b-distinct-bookkeeping", ag, cname + ".update", "recorded value %s is the evaluated expression" % recorded, src_ok,
-                           "" if src_ok else "the value put into `seen` (%s) is not the result of evaluating the aggregate's expression on the row, which is what use_row() tests" % recorded, node=upd)
-        for mname in ("get_value", "set_value"):
-            m = meths.get(mname)
-            if m is None:
+    def _sec_b(repo: Repo, rep: Report) -> None:
+        rep.rule("C08.b-distinct-bookkeeping",
+                 "each Accumulator subclass with its own update() either opts out of DISTINCT in __init__ (self.use_row = self.dont_care) "
+                 "or, on every path of update() that changes its accumulated state, reaches `if self.distinct: self.seen.add(<the evaluated value>)`", floor=5)
+        for cfull in sorted(accumulators()):
+            cname = cfull.rsplit(".", 1)[1]
+            if cname == "Accumulator":
                 continue
-            have = init_attrs(cfull) | {"var", "expr", "distinct", "seen", "get_value", "compare"}
-            used = {n.attr for n in ast.walk(m) if isinstance(n, ast.Attribute) and isinstance(n.value, ast.Name) and n.value.id == "self" and isinstance(n.ctx, ast.Load)}
-            used -= {x for x in used if x in ag.methods(cname) or any(x in ag.methods(b.rsplit(".", 1)[1]) for b in typed.mro(cfull) if b.startswith("rdflib.plugins.sparql.aggregates."))}
-            missing = used - have
-            rep.ob("C08.c-empty-group-values", ag, "%s.%s" % (cname, mname), "reads %s" % sorted(used), not missing,
-                   "all initialised in __init__" if not missing else "reads %s which only update() sets: undefined for a group without rows" % sorted(missing), node=m)
-    # implicit group exists without rows
-    f = ev.func("evalAggregateJoin")
-    rep.analysed("rdflib/plugins/sparql/evaluate.py:evalAggregateJoin")
-    row_loops = [n for n in own_nodes(f) if isinstance(n, ast.For) and isinstance(n.iter, ast.Name)]
-    in_loops = {id(x) for l in row_loops for x in ast.walk(l)}
-    resname = None
-    for n in own_nodes(f):
-        if isinstance(n, (ast.Assign, ast.AnnAssign)) and getattr(n, "value", None) is not None and "Aggregator" in norm(n.value):
-            t = n.targets[0] if isinstance(n, ast.Assign) else n.target
-            resname = norm(t)
-    creates = [n for n in own_nodes(f) if id(n) not in in_loops and (
-        (isinstance(n, ast.Subscript) and resname and norm(n.value) == resname) or
-        (isinstance(n, ast.Call) and norm(n.func) == "Aggregator" and not isinstance(ev.parent.get(id(n)), ast.Lambda)))]
-    guarded = [n for n in creates if any(isinstance(p, ast.If) and "is None" in norm(p.test) or isinstance(p, ast.If) and "not " in norm(p.test) for p in ev.parents(n))]
-    rep.ob("C08.c-empty-group-values", ev, "evalAggregateJoin", "implicit group aggregator created outside the row loop", bool(creates),
-           "the single implicit group exists even when the pattern has no solution (COUNT=0, SUM=0, ...)" if creates else
-           "without GROUP BY the aggregator is only created when the first row arrives: an aggregate query over an empty pattern returns no row instead of COUNT=0 / SUM=0", node=f)
+            meths = ag.methods(cname)
+            rep.analysed("rdflib/plugins/sparql/aggregates.py:" + cname)
+            if "update" in meths:
+                upd = meths["update"]
+                if opts_out(cfull):
+                    rep.ob("C08.b-distinct-bookkeeping", ag, cname + ".update", "opts out of DISTINCT", True,
+                           "use_row = dont_care in __init__: DISTINCT does not change this aggregate's value", node=upd)
+                else:
+                    g = CFG(upd)
+                    state_nodes = []
+                    for nd in g.nodes:
+                        st = nd.ast
+                        if nd.kind != "stmt" or st is None:
+                            continue
+                        tg = []
+                        if isinstance(st, ast.Assign):
+                            tg = st.targets
+                        elif isinstance(st, ast.AugAssign):
+                            tg = [st.target]
+                        # (a boolean constant stored in an attribute is a flag - "this aggregate is an error" - not accumulated state)
+                        is_flag = isinstance(getattr(st, "value", None), ast.Constant) and isinstance(st.value.value, bool)
+                        if not is_flag and any(isinstance(t, ast.Attribute) and isinstance(t.value, ast.Name) and t.value.id == "self" and t.attr not in ("datatype", "seen") for t in tg):
+                            state_nodes.append(nd.id)
+                        if isinstance(st, ast.Expr) and isinstance(st.value, ast.Call) and isinstance(st.value.func, ast.Attribute) and st.value.func.attr in ("append", "extend") \
+                                and norm(st.value.func.value).startswith("self.") and "seen" not in norm(st.value.func.value):
+                            state_nodes.append(nd.id)
+                    marks = set()
+                    recorded = None
+                    for n in own_nodes(upd):
+                        if isinstance(n, ast.If) and norm(n.test) == "self.distinct":
+                            adds = [c for s in n.body for c in ast.walk(s) if isinstance(c, ast.Call) and norm(c.func) == "self.seen.add"]
+                            if adds:
+                                marks.add(g.by_ast[id(n)])
+                                recorded = norm(adds[0].args[0])
+                    if not state_nodes:
+                        raise AnalysisError("%s.update: no state update found" % cname)
+                    ok = bool(marks) and all(g.must_pass_after(s, marks, skip_exc=True) or g.must_pass_before(s, marks) for s in state_nodes)
+                    rep.ob("C08.b-distinct-bookkeeping", ag, cname + ".update", "state update => if self.distinct: self.seen.add(...)", ok,
+                           "every updating path records the value" if ok else "a path updates the accumulator without recording the value in `seen` under `if self.distinct`: DISTINCT counts/sums duplicates", node=upd)
+                    if ok and recorded is not None:
+                        src_ok = False
+                        for n in own_nodes(upd):
+                            if isinstance(n, ast.Assign) and norm(n.targets[0]) == recorded:
+                                if evaluates_expr(cfull, n.value):
+                                    src_ok = True
+                        rep.ob("C08.b-distinct-bookkeeping", ag, cname + ".update", "recorded value %s is the evaluated expression" % recorded, src_ok,
+                               "" if src_ok else "the value put into `seen` (%s) is not the result of evaluating the aggregate's expression on the row, which is what use_row() tests" % recorded, node=upd)
 
-    # ------------------------------------------------------------------ (d)
-    rep.rule("C08.d-slice-bounds", "evalSlice passes islice(res, start, start + length if length is not None else None)", floor=3)
-    f = ev.func("evalSlice")
-    calls = [c for c in ast.walk(f) if isinstance(c, ast.Call) and norm(c.func).endswith("islice")]
-    if not calls:
-        rep.ob("C08.d-slice-bounds", ev, "evalSlice", "islice(...)", False, "evalSlice no longer slices with islice (unmodelled)", node=f)
-    else:
-        c = calls[0]
-        p = f.args.args[1].arg
-        a = c.args
+    _layer(rep, _sec_b, repo)
 
+    def _sec_c(repo: Repo, rep: Report) -> None:
+        rep.rule("C08.c-empty-group-values",
+                 "get_value()/set_value() of every accumulator read only attributes that __init__ (own or inherited) initialises, so the "
+                 "value for a group that received no row is defined; with no GROUP BY the implicit group's Aggregator is created outside the row loop (outside the loops over the "
+                 "operand's solutions an expression is evaluated that makes an Aggregator: a call of the class or of a factory of it - a lambda, a functools.partial, a local def - "
+                 "or the lookup of a key in a defaultdict whose factory makes one)", floor=6)
+        for cfull in sorted(accumulators()):
+            cname = cfull.rsplit(".", 1)[1]
+            if cname == "Accumulator":
+                continue
+            meths = ag.methods(cname)
+            for mname in ("get_value", "set_value"):
+                m = meths.get(mname)
+                if m is None:
+                    continue
+                have = init_attrs(cfull) | {"var", "expr", "distinct", "seen", "get_value", "compare"}
+                used = {n.attr for n in ast.walk(m) if isinstance(n, ast.Attribute) and isinstance(n.value, ast.Name) and n.value.id == "self" and isinstance(n.ctx, ast.Load)}
+                used -= {x for x in used if x in ag.methods(cname) or any(x in ag.methods(b.rsplit(".", 1)[1]) for b in typed.mro(cfull) if b.startswith("rdflib.plugins.sparql.aggregates."))}
+                missing = used - have
+                rep.ob("C08.c-empty-group-values", ag, "%s.%s" % (cname, mname), "reads %s" % sorted(used), not missing,
+                       "all initialised in __init__" if not missing else "reads %s which only update() sets: undefined for a group without rows" % sorted(missing), node=m)
+        # implicit group exists without rows
+        f = ev.func("evalAggregateJoin")
+        rep.analysed("rdflib/plugins/sparql/evaluate.py:evalAggregateJoin")
         from vlib import h_c08 as _H
 
-        fparams = {x.arg for x in f.args.args}
+        # the loops over the solutions of the operand: over a local, or directly over evalPart(...)
+        row_loops = [n for n in own_nodes(f) if isinstance(n, ast.For) and (isinstance(n.iter, ast.Name) or any(
+            isinstance(c, ast.Call) and isinstance(c.func, ast.Name) and c.func.id == "evalPart" for c in ast.walk(n.iter)))]
+        in_loops = {id(x) for l in row_loops for x in ast.walk(l)}
+        imp = _H.import_map(ev)
 
-        def flat(e):
-            """the bound in terms of the parameter: locals that are bound once, unconditionally, are replaced by their values (offset = <p>.start; ...)"""
-            return _H.subst_locals(f, e, fparams)
+        def is_aggregator(e: ast.AST) -> bool:
+            """the expression names the class Aggregator of aggregates.py (under whatever local name it was imported)"""
+            return isinstance(e, ast.Name) and imp.get(e.id, (None, None)) == (ag.name, "Aggregator")
 
-        def unclamp(e):
-            """X of min(X, <a bound that does not depend on the slice>): islice() takes no int above sys.maxsize, clamping there changes no slice"""
-            if isinstance(e, ast.Call) and norm(e.func) == "min" and len(e.args) == 2:
-                dep = [x for x in e.args if p + "." in norm(x)]
-                if len(dep) == 1:
-                    return dep[0]
-            return e
+        # an expression outside those loops whose evaluation makes an Aggregator: Aggregator(...) itself, a call of a factory of it (a lambda, a
+        # functools.partial, a local def), or the lookup of a key in a defaultdict whose factory makes one (nested lambdas / defs are not entered: their
+        # bodies run when called, not where they stand)
+        creates = [n for n in own_nodes(f) if id(n) not in in_loops and _H.creates_instance(ev, f, n, is_aggregator)]
+        rep.ob("C08.c-empty-group-values", ev, "evalAggregateJoin", "implicit group aggregator created outside the row loop", bool(creates),
+               "the single implicit group exists even when the pattern has no solution (COUNT=0, SUM=0, ...)" if creates else
+               "without GROUP BY the aggregator is only created when the first row arrives: an aggregate query over an empty pattern returns no row instead of COUNT=0 / SUM=0", node=f)
 
-        def len_test(t):
-            """+1: the test holds iff <p>.length is not None (by identity); -1: iff it is None; 0: something else (truthiness: LIMIT 0 is falsy)"""
-            t = flat(t)
-            if isinstance(t, ast.UnaryOp) and isinstance(t.op, ast.Not):
-                return -len_test(t.operand)
-            if isinstance(t, ast.Compare) and len(t.ops) == 1 and norm(t.left) == p + ".length" and isinstance(t.comparators[0], ast.Constant) and t.comparators[0].value is None:
-                return 1 if isinstance(t.ops[0], ast.IsNot) else -1 if isinstance(t.ops[0], ast.Is) else 0
-            return 0
+    _layer(rep, _sec_c, repo)
 
-        def alts(e, cond=None, depth=0):
-            """the values a bound can hold, each as (value, under which knowledge about LIMIT it is chosen, line): None = on every path, +1 = LIMIT present,
-            -1 = LIMIT absent, 0 = under some other test.  Follows conditional expressions and the assignments of a local bound on several paths"""
-            def under(c):
-                return c if cond is None else (cond if c == cond else 0)
-            if isinstance(e, ast.IfExp):
-                k = len_test(e.test)
-                return alts(e.body, under(k), depth) + alts(e.orelse, under(-k), depth)
-            if isinstance(e, ast.Name) and e.id not in fparams and depth < 3:
-                out = []
-                for st in own_nodes(f):
-                    if isinstance(st, (ast.Assign, ast.AnnAssign)) and getattr(st, "value", None) is not None and any(
-                            isinstance(t, ast.Name) and t.id == e.id for t in (st.targets if isinstance(st, ast.Assign) else [st.target])):
-                        c = None
-                        child = st
-                        for par_ in ev.parents(st):
-                            if par_ is f:
-                                break
-                            if isinstance(par_, ast.If):
-                                k = len_test(par_.test)
-                                k = k if child in par_.body else -k if child in par_.orelse else 0
-                                c = k if c is None else (c if c == k else 0)
-                            elif not isinstance(par_, (ast.With,)):
-                                c = 0  # in a loop, a try, ...: not modelled
-                            child = par_
-                        out.append((st.value, under(c) if c is not None else cond, st.lineno))
-                if out:
-                    res = []
-                    for v, c, ln in out:
-                        for v2, c2, _ln2 in alts(v, c, depth + 1):
-                            res.append((v2, c2, ln))
-                    return res
-            return [(e, cond, getattr(e, "lineno", 0))]
+    def _sec_d(repo: Repo, rep: Report) -> None:
+        # ------------------------------------------------------------------ (d)
+        rep.rule("C08.d-slice-bounds", "evalSlice passes islice(res, start, start + length if length is not None else None)", floor=3)
+        f = ev.func("evalSlice")
+        calls = [c for c in ast.walk(f) if isinstance(c, ast.Call) and norm(c.func).endswith("islice")]
+        if not calls:
+            rep.ob("C08.d-slice-bounds", ev, "evalSlice", "islice(...)", False, "evalSlice no longer slices with islice (unmodelled)", node=f)
+        else:
+            c = calls[0]
+            p = f.args.args[1].arg
+            a = c.args
 
-        def is_sum(e):
-            e = unclamp(flat(e))
-            return isinstance(e, ast.BinOp) and isinstance(e.op, ast.Add) and {norm(e.left), norm(e.right)} == {p + ".start", p + ".length"}
+            from vlib import h_c08 as _H
 
-        def is_none(e):
-            return isinstance(e, ast.Constant) and e.value is None
+            fparams = {x.arg for x in f.args.args}
 
-        lo = alts(a[1]) if len(a) == 3 else []
-        ok1 = len(a) == 3 and len(lo) == 1 and lo[0][1] is None and norm(unclamp(flat(lo[0][0]))) == p + ".start"
-        rep.ob("C08.d-slice-bounds", ev, "evalSlice", "lower bound %s" % (norm(a[1]) if len(a) > 1 else None), ok1, "" if ok1 else "lower bound is not %s.start" % p, node=c)
-        # the upper bound is <p>.start + <p>.length where LIMIT is present and None where it is not: exactly these two values reach islice, the sum only under
-        # `<p>.length is not None`, None under the opposite test or as the default that the sum overwrites
-        hi = alts(a[2]) if len(a) == 3 else []
-        sums = [d for d in hi if is_sum(d[0])]
-        nones = [d for d in hi if is_none(d[0])]
-        ok2 = len(hi) == 2 and len(sums) == 1 and len(nones) == 1
-        ok3 = ok2 and sums[0][1] == 1 and (nones[0][1] == -1 or (nones[0][1] is None and nones[0][2] < sums[0][2]))
-        rep.ob("C08.d-slice-bounds", ev, "evalSlice", "upper bound start + length", ok2, "" if ok2 else "upper bound is not %s.start + %s.length (else None)" % (p, p), node=c)
-        rep.ob("C08.d-slice-bounds", ev, "evalSlice", "`length is not None` by identity", ok3, "" if ok3 else "presence of LIMIT is not tested with `is not None` (LIMIT 0 is falsy)", node=c)
+            def flat(e):
+                """the bound in terms of the parameter: locals that are bound once, unconditionally, are replaced by their values (offset = <p>.start; ...)"""
+                return _H.subst_locals(f, e, fparams)
 
-    # ------------------------------------------------------------------ (e)
-    rep.rule("C08.e-orderby-stable-multikey",
-             "evalOrderBy applies the sort keys from last to first (reversed(part.expr)) with the stable sorted(); descending order is "
-             "requested through sorted(reverse=...) derived from the key's order; the row list is never reversed", floor=3)
-    f = ev.func("evalOrderBy")
-    lp = [n for n in own_nodes(f) if isinstance(n, ast.For)]
-    ok = bool(lp) and norm(lp[0].iter).startswith("reversed(") and ".expr" in norm(lp[0].iter)
-    rep.ob("C08.e-orderby-stable-multikey", ev, "evalOrderBy", "for e in reversed(part.expr)", ok,
-           "least significant key first" if ok else "sort keys are not applied via reversed(<part>.expr): key priority is wrong or the algebra's list is mutated", node=lp[0] if lp else f)
-    if lp:
-        srt = [c for c in ast.walk(lp[0]) if isinstance(c, ast.Call) and isinstance(c.func, ast.Name) and c.func.id == "sorted"]
-        ok = len(srt) == 1 and any(k.arg == "reverse" for k in srt[0].keywords) and any(k.arg == "key" for k in srt[0].keywords)
-        rep.ob("C08.e-orderby-stable-multikey", ev, "evalOrderBy", "sorted(res, key=..., reverse=...)", ok,
-               "stable sort with per-key direction" if ok else "the per-key sort is not a single sorted(..., key=, reverse=) call", node=lp[0])
-        if ok:
-            rv = [k.value for k in srt[0].keywords if k.arg == "reverse"][0]
-            src = norm(rv)
+            def unclamp(e):
+                """X of min(X, <a bound that does not depend on the slice>): islice() takes no int above sys.maxsize, clamping there changes no slice"""
+                if isinstance(e, ast.Call) and norm(e.func) == "min" and len(e.args) == 2:
+                    dep = [x for x in e.args if p + "." in norm(x)]
+                    if len(dep) == 1:
+                        return dep[0]
+                return e
+
+            def len_test(t):
+                """+1: the test holds iff <p>.length is not None (by identity); -1: iff it is None; 0: something else (truthiness: LIMIT 0 is falsy)"""
+                t = flat(t)
+                if isinstance(t, ast.UnaryOp) and isinstance(t.op, ast.Not):
+                    return -len_test(t.operand)
+                if isinstance(t, ast.Compare) and len(t.ops) == 1 and norm(t.left) == p + ".length" and isinstance(t.comparators[0], ast.Constant) and t.comparators[0].value is None:
+                    return 1 if isinstance(t.ops[0], ast.IsNot) else -1 if isinstance(t.ops[0], ast.Is) else 0
+                return 0
+
+            def alts(e, cond=None, depth=0):
+                """the values a bound can hold, each as (value, under which knowledge about LIMIT it is chosen, line): None = on every path, +1 = LIMIT present,
+                -1 = LIMIT absent, 0 = under some other test.  Follows conditional expressions and the assignments of a local bound on several paths"""
+                def under(c):
+                    return c if cond is None else (cond if c == cond else 0)
+                if isinstance(e, ast.IfExp):
+                    k = len_test(e.test)
+                    return alts(e.body, under(k), depth) + alts(e.orelse, under(-k), depth)
+                if isinstance(e, ast.Name) and e.id not in fparams and depth < 3:
+                    out = []
+                    for st in own_nodes(f):
+                        if isinstance(st, (ast.Assign, ast.AnnAssign)) and getattr(st, "value", None) is not None and any(
+                                isinstance(t, ast.Name) and t.id == e.id for t in (st.targets if isinstance(st, ast.Assign) else [st.target])):
+                            c = None
+                            child = st
+                            for par_ in ev.parents(st):
+                                if par_ is f:
+                                    break
+                                if isinstance(par_, ast.If):
+                                    k = len_test(par_.test)
+                                    k = k if child in par_.body else -k if child in par_.orelse else 0
+                                    c = k if c is None else (c if c == k else 0)
+                                elif not isinstance(par_, (ast.With,)):
+                                    c = 0  # in a loop, a try, ...: not modelled
+                                child = par_
+                            out.append((st.value, under(c) if c is not None else cond, st.lineno))
+                    if out:
+                        res = []
+                        for v, c, ln in out:
+                            for v2, c2, _ln2 in alts(v, c, depth + 1):
+                                res.append((v2, c2, ln))
+                        return res
+                return [(e, cond, getattr(e, "lineno", 0))]
+
+            def is_sum(e):
+                e = unclamp(flat(e))
+                return isinstance(e, ast.BinOp) and isinstance(e.op, ast.Add) and {norm(e.left), norm(e.right)} == {p + ".start", p + ".length"}
+
+            def is_none(e):
+                return isinstance(e, ast.Constant) and e.value is None
+
+            lo = alts(a[1]) if len(a) == 3 else []
+            ok1 = len(a) == 3 and len(lo) == 1 and lo[0][1] is None and norm(unclamp(flat(lo[0][0]))) == p + ".start"
+            rep.ob("C08.d-slice-bounds", ev, "evalSlice", "lower bound %s" % (norm(a[1]) if len(a) > 1 else None), ok1, "" if ok1 else "lower bound is not %s.start" % p, node=c)
+            # the upper bound is <p>.start + <p>.length where LIMIT is present and None where it is not: exactly these two values reach islice, the sum only under
+            # `<p>.length is not None`, None under the opposite test or as the default that the sum overwrites
+            hi = alts(a[2]) if len(a) == 3 else []
+            sums = [d for d in hi if is_sum(d[0])]
+            nones = [d for d in hi if is_none(d[0])]
+            ok2 = len(hi) == 2 and len(sums) == 1 and len(nones) == 1
+            ok3 = ok2 and sums[0][1] == 1 and (nones[0][1] == -1 or (nones[0][1] is None and nones[0][2] < sums[0][2]))
+            rep.ob("C08.d-slice-bounds", ev, "evalSlice", "upper bound start + length", ok2, "" if ok2 else "upper bound is not %s.start + %s.length (else None)" % (p, p), node=c)
+            rep.ob("C08.d-slice-bounds", ev, "evalSlice", "`length is not None` by identity", ok3, "" if ok3 else "presence of LIMIT is not tested with `is not None` (LIMIT 0 is falsy)", node=c)
+
+    _layer(rep, _sec_d, repo)
+
+    def _sec_e(repo: Repo, rep: Report) -> None:
+        # ------------------------------------------------------------------ (e)
+        rep.rule("C08.e-orderby-stable-multikey",
+                 "evalOrderBy applies the sort keys from last to first (reversed(part.expr)) with the stable sorted(); descending order is "
+                 "requested through sorted(reverse=...) derived from the key's order; the row list is never reversed", floor=3)
+        f = ev.func("evalOrderBy")
+        lp = [n for n in own_nodes(f) if isinstance(n, ast.For)]
+        ok = bool(lp) and norm(lp[0].iter).startswith("reversed(") and ".expr" in norm(lp[0].iter)
+        rep.ob("C08.e-orderby-stable-multikey", ev, "evalOrderBy", "for e in reversed(part.expr)", ok,
+               "least significant key first" if ok else "sort keys are not applied via reversed(<part>.expr): key priority is wrong or the algebra's list is mutated", node=lp[0] if lp else f)
+        if lp:
+            srt = [c for c in ast.walk(lp[0]) if isinstance(c, ast.Call) and isinstance(c.func, ast.Name) and c.func.id == "sorted"]
+            ok = len(srt) == 1 and any(k.arg == "reverse" for k in srt[0].keywords) and any(k.arg == "key" for k in srt[0].keywords)
+            rep.ob("C08.e-orderby-stable-multikey", ev, "evalOrderBy", "sorted(res, key=..., reverse=...)", ok,
+                   "stable sort with per-key direction" if ok else "the per-key sort is not a single sorted(..., key=, reverse=) call", node=lp[0])
+            if ok:
+                rv = [k.value for k in srt[0].keywords if k.arg == "reverse"][0]
+                src = norm(rv)
+                for n in ast.walk(lp[0]):
+                    if isinstance(n, ast.Assign) and norm(n.targets[0]) == src:
+                        src = norm(n.value)
+                okd = "DESC" in src and ".order" in src
+                rep.ob("C08.e-orderby-stable-multikey", ev, "evalOrderBy", "reverse derives from e.order == 'DESC'", okd, "" if okd else "reverse=%s does not derive from the key's order" % src, node=lp[0])
+            bad = [n for n in ast.walk(f) if (isinstance(n, ast.Call) and isinstance(n.func, ast.Attribute) and n.func.attr == "reverse") or
+                   (isinstance(n, ast.Subscript) and isinstance(n.slice, ast.Slice) and n.slice.step is not None) or
+                   (isinstance(n, ast.Call) and isinstance(n.func, ast.Name) and n.func.id == "reversed" and ".expr" not in norm(n))]
+            rep.ob("C08.e-orderby-stable-multikey", ev, "evalOrderBy", "rows are never reversed", not bad,
+                   "" if not bad else "%s reverses a list: rows that tie on this key lose the order established by the lower-priority keys" % norm(bad[0])[:60], node=bad[0] if bad else f)
+
+    _layer(rep, _sec_e, repo)
+
+    def _sec_f(repo: Repo, rep: Report) -> None:
+        # ------------------------------------------------------------------ (f)
+        rep.rule("C08.f-distinct-project",
+                 "evalDistinct/evalReduced remember and test the solution itself; evalProject keeps exactly project.PV", floor=4)
+        for q in ("evalDistinct", "evalReduced"):
+            fn = ev.func(q)
+            lp = [n for n in own_nodes(fn) if isinstance(n, ast.For)]
+            if not lp:
+                raise AnalysisError("%s: no loop" % q)
+            var = norm(lp[0].target)
             for n in ast.walk(lp[0]):
-                if isinstance(n, ast.Assign) and norm(n.targets[0]) == src:
-                    src = norm(n.value)
-            okd = "DESC" in src and ".order" in src
-            rep.ob("C08.e-orderby-stable-multikey", ev, "evalOrderBy", "reverse derives from e.order == 'DESC'", okd, "" if okd else "reverse=%s does not derive from the key's order" % src, node=lp[0])
-        bad = [n for n in ast.walk(f) if (isinstance(n, ast.Call) and isinstance(n.func, ast.Attribute) and n.func.attr == "reverse") or
-               (isinstance(n, ast.Subscript) and isinstance(n.slice, ast.Slice) and n.slice.step is not None) or
-               (isinstance(n, ast.Call) and isinstance(n.func, ast.Name) and n.func.id == "reversed" and ".expr" not in norm(n))]
-        rep.ob("C08.e-orderby-stable-multikey", ev, "evalOrderBy", "rows are never reversed", not bad,
-               "" if not bad else "%s reverses a list: rows that tie on this key lose the order established by the lower-priority keys" % norm(bad[0])[:60], node=bad[0] if bad else f)
+                if isinstance(n, ast.Call) and isinstance(n.func, ast.Attribute) and n.func.attr in ("add", "appendleft", "append") and n.args:
+                    ok = norm(n.args[-1]) == var
+                    rep.ob("C08.f-distinct-project", ev, q, n, ok, "remembers the solution" if ok else "remembers %s, not the solution %s: different solutions with equal %s collapse" % (norm(n.args[-1]), var, norm(n.args[-1])), node=n)
+                if isinstance(n, ast.Compare) and isinstance(n.ops[0], (ast.In, ast.NotIn)):
+                    ok = norm(n.left) == var
+                    rep.ob("C08.f-distinct-project", ev, q, n, ok, "tests the solution" if ok else "tests %s, not the solution" % norm(n.left), node=n)
+        fn = ev.func("evalProject")
+        ok = any(isinstance(c, ast.Call) and isinstance(c.func, ast.Attribute) and c.func.attr == "project" and c.args and norm(c.args[0]).endswith(".PV") for c in ast.walk(fn))
+        rep.ob("C08.f-distinct-project", ev, "evalProject", "row.project(project.PV)", ok, "" if ok else "projection no longer keeps exactly the PV variables", node=fn)
 
-    # ------------------------------------------------------------------ (f)
-    rep.rule("C08.f-distinct-project",
-             "evalDistinct/evalReduced remember and test the solution itself; evalProject keeps exactly project.PV", floor=4)
-    for q in ("evalDistinct", "evalReduced"):
-        fn = ev.func(q)
-        lp = [n for n in own_nodes(fn) if isinstance(n, ast.For)]
-        if not lp:
-            raise AnalysisError("%s: no loop" % q)
-        var = norm(lp[0].target)
-        for n in ast.walk(lp[0]):
-            if isinstance(n, ast.Call) and isinstance(n.func, ast.Attribute) and n.func.attr in ("add", "appendleft", "append") and n.args:
-                ok = norm(n.args[-1]) == var
-                rep.ob("C08.f-distinct-project", ev, q, n, ok, "remembers the solution" if ok else "remembers %s, not the solution %s: different solutions with equal %s collapse" % (norm(n.args[-1]), var, norm(n.args[-1])), node=n)
-            if isinstance(n, ast.Compare) and isinstance(n.ops[0], (ast.In, ast.NotIn)):
-                ok = norm(n.left) == var
-                rep.ob("C08.f-distinct-project", ev, q, n, ok, "tests the solution" if ok else "tests %s, not the solution" % norm(n.left), node=n)
-    fn = ev.func("evalProject")
-    ok = any(isinstance(c, ast.Call) and isinstance(c.func, ast.Attribute) and c.func.attr == "project" and c.args and norm(c.args[0]).endswith(".PV") for c in ast.walk(fn))
-    rep.ob("C08.f-distinct-project", ev, "evalProject", "row.project(project.PV)", ok, "" if ok else "projection no longer keeps exactly the PV variables", node=fn)
+    _layer(rep, _sec_f, repo)
 
-    # ------------------------------------------------------------------ (g)
-    rep.rule("C08.g-accumulated-value-by-identity",
-             "in the accumulators, whether a running value / evaluated term is `not yet set` is decided with `is None`; the truthiness of an "
-             "accumulated or evaluated term (Literal(0), Literal(''), Literal(false) are falsy) is never consulted", floor=2)
-    from vlib import truthy as _tr
-    for cfull in sorted(accs):
-        cname = cfull.rsplit(".", 1)[1]
-        for mname, f in ag.methods(cname).items():
-            for n in own_nodes(f):
-                if isinstance(n, ast.Compare) and isinstance(n.ops[0], (ast.Is, ast.IsNot)) and isinstance(n.comparators[0], ast.Constant) and n.comparators[0].value is None \
-                        and isinstance(n.left, ast.Attribute) and isinstance(n.left.value, ast.Name) and n.left.value.id == "self":
-                    rep.ob("C08.g-accumulated-value-by-identity", ag, "%s.%s" % (cname, mname), n, True, "by identity", node=n)
-            evaluated = {norm(a.targets[0]) for a in own_nodes(f) if isinstance(a, ast.Assign) and isinstance(a.value, ast.Call) and norm(a.value.func) in ("_eval", "self.eval_row")}
-            for e, owner, kind in _tr.bool_contexts(f):
-                txt = norm(e)
-                is_state = isinstance(e, ast.Attribute) and isinstance(e.value, ast.Name) and e.value.id == "self" and e.attr in ("value", "sum", "counter", "result")
-                if (is_state and e.attr == "value") or txt in evaluated:
-                    rep.ob("C08.g-accumulated-value-by-identity", ag, "%s.%s" % (cname, mname), "%s [in %s: %s]" % (txt, kind, norm(getattr(owner, "test", owner))[:60]), False,
-                           "%s is a term (or None): a falsy literal is treated as `not set`, so e.g. a running MIN/MAX of 0 is overwritten without comparison" % txt, node=e)
+    def _sec_g(repo: Repo, rep: Report) -> None:
+        # ------------------------------------------------------------------ (g)
+        rep.rule("C08.g-accumulated-value-by-identity",
+                 "in the accumulators, whether a running value / evaluated term is `not yet set` is decided with `is None`; the truthiness of an "
+                 "accumulated or evaluated term (Literal(0), Literal(''), Literal(false) are falsy) is never consulted", floor=2)
+        from vlib import truthy as _tr
+        for cfull in sorted(accumulators()):
+            cname = cfull.rsplit(".", 1)[1]
+            for mname, f in ag.methods(cname).items():
+                for n in own_nodes(f):
+                    if isinstance(n, ast.Compare) and isinstance(n.ops[0], (ast.Is, ast.IsNot)) and isinstance(n.comparators[0], ast.Constant) and n.comparators[0].value is None \
+                            and isinstance(n.left, ast.Attribute) and isinstance(n.left.value, ast.Name) and n.left.value.id == "self":
+                        rep.ob("C08.g-accumulated-value-by-identity", ag, "%s.%s" % (cname, mname), n, True, "by identity", node=n)
+                evaluated = {norm(a.targets[0]) for a in own_nodes(f) if isinstance(a, ast.Assign) and isinstance(a.value, ast.Call) and norm(a.value.func) in ("_eval", "self.eval_row")}
+                for e, owner, kind in _tr.bool_contexts(f):
+                    txt = norm(e)
+                    is_state = isinstance(e, ast.Attribute) and isinstance(e.value, ast.Name) and e.value.id == "self" and e.attr in ("value", "sum", "counter", "result")
+                    if (is_state and e.attr == "value") or txt in evaluated:
+                        rep.ob("C08.g-accumulated-value-by-identity", ag, "%s.%s" % (cname, mname), "%s [in %s: %s]" % (txt, kind, norm(getattr(owner, "test", owner))[:60]), False,
+                               "%s is a term (or None): a falsy literal is treated as `not set`, so e.g. a running MIN/MAX of 0 is overwritten without comparison" % txt, node=e)
 
-    # ------------------------------------------------------------------ (h)
-    rep.rule("C08.h-group-variables-sampled-in-having-and-orderby",
-             "translateAggregates (SPARQL 18.2.4.1): in HAVING and in ORDER BY every unaggregated variable is replaced by Sample(V) per group whether or not the clause "
-             "itself contains an aggregate call; the rewrite (`q.X = traverse(q.X, _sample ...)`) is therefore not guarded by `traverse(q.X, _hasAggregate, complete=False)`. "
-             "After the AggregateJoin only aggregate results exist, so an unsampled group key that is not projected is unbound in HAVING (all groups dropped) and in "
-             "ORDER BY (rows not ordered)", floor=2)
-    alg = repo.mod("rdflib.plugins.sparql.algebra")
-    ta = alg.func("translateAggregates")
-    for clause in ("having", "orderby"):
-        rew = [n for n in own_nodes(ta) if isinstance(n, ast.Assign) and norm(n.targets[0]).endswith("." + clause) and isinstance(n.value, ast.Call)
-               and norm(n.value.func) == "traverse" and any("_sample" in norm(a) for a in n.value.args)]
-        if not rew:
-            rep.ob("C08.h-group-variables-sampled-in-having-and-orderby", alg, "translateAggregates", "q.%s is rewritten with _sample" % clause, False,
-                   "no sampling rewrite of q.%s found: unaggregated variables of the clause are unbound after grouping" % clause, node=ta)
-            continue
-        for n in rew:
-            bad = None
-            child = n
-            for p_ in alg.parents(n):
-                if isinstance(p_, ast.If) and child in p_.body:
-                    for t in ast.walk(p_.test):
-                        if isinstance(t, ast.Call) and norm(t.func) == "traverse" and any("_hasAggregate" in norm(a) for a in t.args):
-                            comp = [k.value for k in t.keywords if k.arg == "complete"]
-                            always = bool(comp) and isinstance(comp[0], ast.Constant) and comp[0].value is True
-                            if not always:
-                                bad = t
-                if p_ is ta:
-                    break
-                child = p_
-            rep.ob("C08.h-group-variables-sampled-in-having-and-orderby", alg, "translateAggregates", "q.%s: %s" % (clause, norm(n)[:80]), bad is None,
-                   "sampled unconditionally" if bad is None else
-                   "the %s clause is sampled only if `%s` - i.e. only if it contains an aggregate call: `GROUP BY ?d %s` with ?d not projected refers to a variable that no longer exists after grouping" % (
-                       clause.upper(), norm(bad), "HAVING (?d != <x>)" if clause == "having" else "ORDER BY ?d"), node=bad or n)
+    _layer(rep, _sec_g, repo)
+
+    def _sec_h(repo: Repo, rep: Report) -> None:
+        # ------------------------------------------------------------------ (h)
+        rep.rule("C08.h-group-variables-sampled-in-having-and-orderby",
+                 "translateAggregates (SPARQL 18.2.4.1): in HAVING and in ORDER BY every unaggregated variable is replaced by Sample(V) per group whether or not the clause "
+                 "itself contains an aggregate call; the rewrite (`q.X = traverse(q.X, _sample ...)`) is therefore not guarded by `traverse(q.X, _hasAggregate, complete=False)`. "
+                 "After the AggregateJoin only aggregate results exist, so an unsampled group key that is not projected is unbound in HAVING (all groups dropped) and in "
+                 "ORDER BY (rows not ordered)", floor=2)
+        alg = repo.mod("rdflib.plugins.sparql.algebra")
+        ta = alg.func("translateAggregates")
+        for clause in ("having", "orderby"):
+            rew = [n for n in own_nodes(ta) if isinstance(n, ast.Assign) and norm(n.targets[0]).endswith("." + clause) and isinstance(n.value, ast.Call)
+                   and norm(n.value.func) == "traverse" and any("_sample" in norm(a) for a in n.value.args)]
+            if not rew:
+                rep.ob("C08.h-group-variables-sampled-in-having-and-orderby", alg, "translateAggregates", "q.%s is rewritten with _sample" % clause, False,
+                       "no sampling rewrite of q.%s found: unaggregated variables of the clause are unbound after grouping" % clause, node=ta)
+                continue
+            for n in rew:
+                bad = None
+                child = n
+                for p_ in alg.parents(n):
+                    if isinstance(p_, ast.If) and child in p_.body:
+                        for t in ast.walk(p_.test):
+                            if isinstance(t, ast.Call) and norm(t.func) == "traverse" and any("_hasAggregate" in norm(a) for a in t.args):
+                                comp = [k.value for k in t.keywords if k.arg == "complete"]
+                                always = bool(comp) and isinstance(comp[0], ast.Constant) and comp[0].value is True
+                                if not always:
+                                    bad = t
+                    if p_ is ta:
+                        break
+                    child = p_
+                rep.ob("C08.h-group-variables-sampled-in-having-and-orderby", alg, "translateAggregates", "q.%s: %s" % (clause, norm(n)[:80]), bad is None,
+                       "sampled unconditionally" if bad is None else
+                       "the %s clause is sampled only if `%s` - i.e. only if it contains an aggregate call: `GROUP BY ?d %s` with ?d not projected refers to a variable that no longer exists after grouping" % (
+                           clause.upper(), norm(bad), "HAVING (?d != <x>)" if clause == "having" else "ORDER BY ?d"), node=bad or n)
+
+    _layer(rep, _sec_h, repo)
 
 
-from vlib.core import layer as _layer  # noqa: E402
+
 
 _run_base = run
 
@@ -400,39 +440,46 @@ _run_base = run
 def run(repo: Repo, rep: Report) -> None:  # noqa: F811
     _layer(rep, _run_base, repo)
     ag = repo.mod("rdflib.plugins.sparql.aggregates")
-    # ------------------------------------------------------------------ (i)
-    rep.rule("C08.i-extremum-is-a-member-of-the-group",
-             "MIN / MAX return one of the group's terms unchanged: Extremum.set_value binds self.value itself (SPARQL orders IRIs, blank nodes and literals; the extremum of a group "
-             "of IRIs is an IRI). Wrapping the running value in Literal(...) unconditionally turns an IRI or blank node into a plain string literal", floor=1)
-    sv = ag.func("Extremum.set_value")
-    for st in own_nodes(sv):
-        if isinstance(st, ast.Assign) and isinstance(st.targets[0], ast.Subscript) and norm(st.targets[0].value) == "bindings":
-            v = st.value
-            uncond_wrap = isinstance(v, ast.Call) and norm(v.func) == "Literal" and v.args and norm(v.args[0]) == "self.value"
-            rep.ob("C08.i-extremum-is-a-member-of-the-group", ag, "Extremum.set_value", st, not uncond_wrap,
-                   "the term itself (a Literal is only made of a non-term value)" if not uncond_wrap else
-                   "MIN(?x) / MAX(?x) over IRIs or blank nodes answer with Literal('<the IRI text>'): a term that is not in the group", node=st)
+    def _sec_i(repo: Repo, rep: Report) -> None:
+        # ------------------------------------------------------------------ (i)
+        rep.rule("C08.i-extremum-is-a-member-of-the-group",
+                 "MIN / MAX return one of the group's terms unchanged: Extremum.set_value binds self.value itself (SPARQL orders IRIs, blank nodes and literals; the extremum of a group "
+                 "of IRIs is an IRI). Wrapping the running value in Literal(...) unconditionally turns an IRI or blank node into a plain string literal", floor=1)
+        sv = ag.func("Extremum.set_value")
+        for st in own_nodes(sv):
+            if isinstance(st, ast.Assign) and isinstance(st.targets[0], ast.Subscript) and norm(st.targets[0].value) == "bindings":
+                v = st.value
+                uncond_wrap = isinstance(v, ast.Call) and norm(v.func) == "Literal" and v.args and norm(v.args[0]) == "self.value"
+                rep.ob("C08.i-extremum-is-a-member-of-the-group", ag, "Extremum.set_value", st, not uncond_wrap,
+                       "the term itself (a Literal is only made of a non-term value)" if not uncond_wrap else
+                       "MIN(?x) / MAX(?x) over IRIs or blank nodes answer with Literal('<the IRI text>'): a term that is not in the group", node=st)
 
-    # ------------------------------------------------------------------ (j)
-    rep.rule("C08.j-numeric-accumulators-agree-on-non-numbers",
-             "SUM and AVG (Sum.update, Average.update) treat a term that is not a number the same way: the conversion numeric(value) comes before any use of value.datatype "
-             "(an IRI or blank node has no datatype attribute) and its SPARQLTypeError is handled in update(); otherwise one non-numeric member makes the whole query raise", floor=4)
-    for cname in ("Sum", "Average"):
-        f = ag.func(cname + ".update")
-        handlers = {norm(h.type) for t in own_nodes(f) if isinstance(t, ast.Try) for h in t.handlers if h.type is not None}
-        # the class itself or one of its bases (except SPARQLError: catches it too)
-        catching = {b.rsplit(".", 1)[1] for b in repo.typed.mro("rdflib.plugins.sparql.sparql.SPARQLTypeError") if b.startswith("rdflib.")}
-        ok = any(c in catching for h in handlers for c in h.replace("(", " ").replace(")", " ").replace(",", " ").split())
-        rep.ob("C08.j-numeric-accumulators-agree-on-non-numbers", ag, cname + ".update", "handles SPARQLTypeError of numeric()", ok,
-               "" if ok else "%s.update lets SPARQLTypeError escape: `SELECT (SUM(?v) AS ?s)` over a group with one string or IRI raises instead of answering (AVG on the same group answers)" % cname, node=f)
-        num = [c for c in own_nodes(f) if isinstance(c, ast.Call) and norm(c.func) == "numeric"]
-        dts = [a for a in own_nodes(f) if isinstance(a, ast.Attribute) and a.attr == "datatype" and isinstance(a.value, ast.Name) and a.value.id != "self"]
-        if not num:
-            raise AnalysisError("%s.update: numeric() call not found" % cname)
-        first_num = min(c.lineno for c in num)
-        early = [a for a in dts if a.lineno < first_num]
-        rep.ob("C08.j-numeric-accumulators-agree-on-non-numbers", ag, cname + ".update", "numeric(value) precedes value.datatype", not early,
-               "" if not early else "%s is read before numeric() has rejected non-literals: an IRI in the group raises AttributeError" % norm(early[0]), node=early[0] if early else num[0])
+    _layer(rep, _sec_i, repo)
+
+    def _sec_j(repo: Repo, rep: Report) -> None:
+        # ------------------------------------------------------------------ (j)
+        rep.rule("C08.j-numeric-accumulators-agree-on-non-numbers",
+                 "SUM and AVG (Sum.update, Average.update) treat a term that is not a number the same way: the conversion numeric(value) comes before any use of value.datatype "
+                 "(an IRI or blank node has no datatype attribute) and its SPARQLTypeError is handled in update(); otherwise one non-numeric member makes the whole query raise", floor=4)
+        for cname in ("Sum", "Average"):
+            f = ag.func(cname + ".update")
+            handlers = {norm(h.type) for t in own_nodes(f) if isinstance(t, ast.Try) for h in t.handlers if h.type is not None}
+            # the class itself or one of its bases (except SPARQLError: catches it too)
+            catching = {b.rsplit(".", 1)[1] for b in repo.typed.mro("rdflib.plugins.sparql.sparql.SPARQLTypeError") if b.startswith("rdflib.")}
+            ok = any(c in catching for h in handlers for c in h.replace("(", " ").replace(")", " ").replace(",", " ").split())
+            rep.ob("C08.j-numeric-accumulators-agree-on-non-numbers", ag, cname + ".update", "handles SPARQLTypeError of numeric()", ok,
+                   "" if ok else "%s.update lets SPARQLTypeError escape: `SELECT (SUM(?v) AS ?s)` over a group with one string or IRI raises instead of answering (AVG on the same group answers)" % cname, node=f)
+            num = [c for c in own_nodes(f) if isinstance(c, ast.Call) and norm(c.func) == "numeric"]
+            dts = [a for a in own_nodes(f) if isinstance(a, ast.Attribute) and a.attr == "datatype" and isinstance(a.value, ast.Name) and a.value.id != "self"]
+            if not num:
+                raise AnalysisError("%s.update: numeric() call not found" % cname)
+            first_num = min(c.lineno for c in num)
+            early = [a for a in dts if a.lineno < first_num]
+            rep.ob("C08.j-numeric-accumulators-agree-on-non-numbers", ag, cname + ".update", "numeric(value) precedes value.datatype", not early,
+                   "" if not early else "%s is read before numeric() has rejected non-literals: an IRI in the group raises AttributeError" % norm(early[0]), node=early[0] if early else num[0])
+
+    _layer(rep, _sec_j, repo)
+
 
 
 _run_base2 = run
@@ -440,27 +487,35 @@ _run_base2 = run
 
 def run(repo: Repo, rep: Report) -> None:  # noqa: F811
     _layer(rep, _run_base2, repo)
-    alg = repo.mod("rdflib.plugins.sparql.algebra")
-    rep.rule("C08.k-modifier-keyword-to-algebra-node",
-             "algebra.translate maps SELECT DISTINCT to a `Distinct` node and SELECT REDUCED to a `Reduced` node on every path: under the test `q.modifier == \"DISTINCT\"` the only "
-             "algebra node constructed is Distinct (evalReduced only drops a row equal to the one emitted just before it - rows are sorted on the ORDER BY keys BEFORE projection, so "
-             "equal projected rows need not be adjacent)", floor=2)
-    tr = [f for q, f in alg.functions() if q == "translate"]
-    if not tr:
-        raise AnalysisError("algebra.translate vanished")
-    f = tr[0]
-    n_arm = 0
-    for n in own_nodes(f):
-        if isinstance(n, ast.If):
-            for kw, node in (("DISTINCT", "Distinct"), ("REDUCED", "Reduced")):
-                if '"%s"' % kw in norm(n.test).replace("'", '"') and "modifier" in norm(n.test):
-                    built = [c.args[0].value for s_ in n.body for c in ast.walk(s_) if isinstance(c, ast.Call) and norm(c.func) == "CompValue" and c.args and isinstance(c.args[0], ast.Constant)]
-                    n_arm += 1
-                    ok = built == [node]
-                    rep.ob("C08.k-modifier-keyword-to-algebra-node", alg, "translate", "%s -> %s" % (norm(n.test)[:50], built), ok,
-                           "" if ok else "under `%s` the translator builds %s: SELECT %s does not get the %s evaluator" % (norm(n.test)[:60], built, kw, node), node=n)
-    if n_arm < 2:
-        raise AnalysisError("translate: DISTINCT / REDUCED arms not found")
+
+    def _sec_k(repo: Repo, rep: Report) -> None:
+        alg = repo.mod("rdflib.plugins.sparql.algebra")
+        rep.rule("C08.k-modifier-keyword-to-algebra-node",
+                 "algebra.translate maps SELECT DISTINCT to a `Distinct` node and SELECT REDUCED to a `Reduced` node on every path: under the test `q.modifier == \"DISTINCT\"` the only "
+                 "algebra node constructed is Distinct (evalReduced only drops a row equal to the one emitted just before it - rows are sorted on the ORDER BY keys BEFORE projection, so "
+                 "equal projected rows need not be adjacent). The arms are read from the chain of ifs or, row by row, from a loop over a constant (keyword, node) table of the module", floor=2)
+        tr = [f for q, f in alg.functions() if q == "translate"]
+        if not tr:
+            raise AnalysisError("algebra.translate vanished")
+        from vlib import h_c08 as _H
+
+        # what is done per keyword may be written as a chain of ifs or as a loop over a constant table of (keyword, node) rows of the module: the loop is
+        # read row by row, with the loop variables replaced by the constants of the row
+        f = _H.unroll_constant_loops(alg, tr[0])
+        n_arm = 0
+        for n in own_nodes(f):
+            if isinstance(n, ast.If):
+                for kw, node in (("DISTINCT", "Distinct"), ("REDUCED", "Reduced")):
+                    if '"%s"' % kw in norm(n.test).replace("'", '"') and "modifier" in norm(n.test):
+                        built = [c.args[0].value for s_ in n.body for c in ast.walk(s_) if isinstance(c, ast.Call) and norm(c.func) == "CompValue" and c.args and isinstance(c.args[0], ast.Constant)]
+                        n_arm += 1
+                        ok = built == [node]
+                        rep.ob("C08.k-modifier-keyword-to-algebra-node", alg, "translate", "%s -> %s" % (norm(n.test)[:50], built), ok,
+                               "" if ok else "under `%s` the translator builds %s: SELECT %s does not get the %s evaluator" % (norm(n.test)[:60], built, kw, node), node=n)
+        if n_arm < 2:
+            raise AnalysisError("translate: DISTINCT / REDUCED arms not found")
+
+    _layer(rep, _sec_k, repo)
 
 
 _run_base3 = run
@@ -488,12 +543,16 @@ def run(repo: Repo, rep: Report) -> None:  # noqa: F811
     covers_all_errors = esc.bases["SPARQLError"]  # naming one of these in isinstance / except covers every SPARQL error
 
     # the classes Aggregator instantiates (values of Aggregator.accumulator_classes)
-    concrete: list[str] = []
-    for st in ag.cls("Aggregator").body:
-        if isinstance(st, ast.Assign) and norm(st.targets[0]) == "accumulator_classes" and isinstance(st.value, ast.Dict):
-            concrete = sorted({norm(v) for v in st.value.values})
-    if len(concrete) < 7 or not all(ag.has(c) for c in concrete):
-        raise AnalysisError("Aggregator.accumulator_classes: classes not found (%s)" % concrete)
+    # (looked up by the rule that needs them, so that a lost anchor is recorded against that rule)
+    def concrete_classes() -> list[str]:
+        concrete: list[str] = []
+        for st in ag.cls("Aggregator").body:
+            if isinstance(st, ast.Assign) and norm(st.targets[0]) == "accumulator_classes" and isinstance(st.value, ast.Dict):
+                concrete = sorted({norm(v) for v in st.value.values})
+        if len(concrete) < 7 or not all(ag.has(c) for c in concrete):
+            raise AnalysisError("Aggregator.accumulator_classes: classes not found (%s)" % concrete)
+        return concrete
+
     AG = "rdflib.plugins.sparql.aggregates."
 
     def resolved(cname: str, meth: str):
@@ -504,295 +563,329 @@ def run(repo: Repo, rep: Report) -> None:  # noqa: F811
                     return b[len(AG):], m
         return None, None
 
-    # ------------------------------------------------------------------ (l)  F102
-    rep.rule("C08.l-grammar-optional-into-mandatory-algebra-field",
-             "algebra.py: where a parse node is known to be the grammar production K (`x.name == \"K\"`) and one of its parameters x.a is passed to an algebra constructor "
-             "(Extend, Filter, Group, ...) for a parameter that has no default, then either a is mandatory in K's production in parser.py, or the call lies in a branch taken "
-             "only when x.a is not None. `GROUP BY (?a + ?b)` has no `AS ?v` (Optional in [20] GroupCondition): passing c.var on makes Extend(var=None) and a None group key, "
-             "and evaluation raises 'Cannot eval thing: None'", floor=3)
-    gp = H.grammar_params(par)
-    if "GroupAs" not in gp or "var" not in gp["GroupAs"][1] or "expr" in gp["GroupAs"][1]:
-        raise AnalysisError("parser.py: production GroupAs ( Expression (AS Var)? ) not recognised: %s" % (gp.get("GroupAs"),))
-    ctors: dict[str, list[tuple[str, bool]]] = {}
-    for q, f in alg.functions():
-        if "." not in q and any(isinstance(r, ast.Return) and isinstance(r.value, ast.Call) and norm(r.value.func) == "CompValue" for r in own_nodes(f)):
-            nd = len(f.args.args) - len(f.args.defaults)
-            ctors[q] = [(p.arg, i >= nd) for i, p in enumerate(f.args.args)]
-    if "Extend" not in ctors or "Group" not in ctors:
-        raise AnalysisError("algebra.py: algebra constructors not found (%s)" % sorted(ctors))
+    def _sec_l(repo: Repo, rep: Report) -> None:
+        # ------------------------------------------------------------------ (l)  F102
+        rep.rule("C08.l-grammar-optional-into-mandatory-algebra-field",
+                 "algebra.py: where a parse node is known to be the grammar production K (`x.name == \"K\"`) and one of its parameters x.a is passed to an algebra constructor "
+                 "(Extend, Filter, Group, ...) for a parameter that has no default, then either a is mandatory in K's production in parser.py, or the call lies in a branch taken "
+                 "only when x.a is not None. `GROUP BY (?a + ?b)` has no `AS ?v` (Optional in [20] GroupCondition): passing c.var on makes Extend(var=None) and a None group key, "
+                 "and evaluation raises 'Cannot eval thing: None'", floor=3)
+        gp = H.grammar_params(par)
+        if "GroupAs" not in gp or "var" not in gp["GroupAs"][1] or "expr" in gp["GroupAs"][1]:
+            raise AnalysisError("parser.py: production GroupAs ( Expression (AS Var)? ) not recognised: %s" % (gp.get("GroupAs"),))
+        ctors: dict[str, list[tuple[str, bool]]] = {}
+        for q, f in alg.functions():
+            if "." not in q and any(isinstance(r, ast.Return) and isinstance(r.value, ast.Call) and norm(r.value.func) == "CompValue" for r in own_nodes(f)):
+                nd = len(f.args.args) - len(f.args.defaults)
+                ctors[q] = [(p.arg, i >= nd) for i, p in enumerate(f.args.args)]
+        if "Extend" not in ctors or "Group" not in ctors:
+            raise AnalysisError("algebra.py: algebra constructors not found (%s)" % sorted(ctors))
 
-    def production_of(node: ast.AST, base: str, stop: ast.AST):
-        child = node
-        for p_ in alg.parents(node):
-            if isinstance(p_, ast.If) and child in p_.body:
-                for t in ast.walk(p_.test):
-                    if isinstance(t, ast.Compare) and len(t.ops) == 1 and isinstance(t.ops[0], ast.Eq) and norm(t.left) == base + ".name" \
-                            and isinstance(t.comparators[0], ast.Constant) and isinstance(t.comparators[0].value, str):
-                        return t.comparators[0].value
-            if p_ is stop:
-                return None
-            child = p_
-        return None
+        def production_of(node: ast.AST, base: str, stop: ast.AST):
+            child = node
+            for p_ in alg.parents(node):
+                if isinstance(p_, ast.If) and child in p_.body:
+                    for t in ast.walk(p_.test):
+                        if isinstance(t, ast.Compare) and len(t.ops) == 1 and isinstance(t.ops[0], ast.Eq) and norm(t.left) == base + ".name" \
+                                and isinstance(t.comparators[0], ast.Constant) and isinstance(t.comparators[0].value, str):
+                            return t.comparators[0].value
+                if p_ is stop:
+                    return None
+                child = p_
+            return None
 
-    for q, f in alg.functions():
-        for c in own_nodes(f):
-            if not (isinstance(c, ast.Call) and isinstance(c.func, ast.Name) and c.func.id in ctors):
-                continue
-            sig = ctors[c.func.id]
-            passed = [(sig[i], a) for i, a in enumerate(c.args) if i < len(sig)] + [((k.arg, dict(sig).get(k.arg, True)), k.value) for k in c.keywords if k.arg]
-            for (pname, has_default), a in passed:
-                if has_default or not (isinstance(a, ast.Attribute) and isinstance(a.value, ast.Name)):
+        for q, f in alg.functions():
+            for c in own_nodes(f):
+                if not (isinstance(c, ast.Call) and isinstance(c.func, ast.Name) and c.func.id in ctors):
                     continue
-                K = production_of(c, a.value.id, f)
-                if K is None or K not in gp or a.attr not in gp[K][0]:
+                sig = ctors[c.func.id]
+                passed = [(sig[i], a) for i, a in enumerate(c.args) if i < len(sig)] + [((k.arg, dict(sig).get(k.arg, True)), k.value) for k in c.keywords if k.arg]
+                for (pname, has_default), a in passed:
+                    if has_default or not (isinstance(a, ast.Attribute) and isinstance(a.value, ast.Name)):
+                        continue
+                    K = production_of(c, a.value.id, f)
+                    if K is None or K not in gp or a.attr not in gp[K][0]:
+                        continue
+                    optional = a.attr in gp[K][1]
+                    ok = not optional or H.non_none_guarded(alg, c, norm(a), f)
+                    rep.ob("C08.l-grammar-optional-into-mandatory-algebra-field", alg, q, "%s.%s -> %s(%s=)" % (K, a.attr, c.func.id, pname), ok,
+                           ("mandatory in the production" if not optional else "only where it is not None") if ok else
+                           "%s is optional in the production %s (it is None when not written) but is passed unguarded as the mandatory `%s` of %s(...): the algebra node gets None where a term is required"
+                           % (a.attr, K, pname, c.func.id), node=c)
+
+    _layer(rep, _sec_l, repo)
+
+    def _sec_m(repo: Repo, rep: Report) -> None:
+        # ------------------------------------------------------------------ (m)  F103
+        rep.rule("C08.m-no-solution-error-escapes-row-protocol",
+                 "Aggregator.update calls acc.use_row(row) and acc.update(row, self) for every solution, Aggregator.get_bindings calls acc.set_value(bindings) for every group, all without a "
+                 "try: no SPARQLError (NotBoundError of _eval for an unbound variable, the error an expression evaluated to, SPARQLTypeError of numeric()) may leave one of these methods of "
+                 "any accumulator class (resolved per class, including the instance-level re-bindings `self.use_row = self.dont_care` made in __init__) - a solution without a value is skipped, it "
+                 "does not abort the query. `SELECT (SUM(DISTINCT ?v) AS ?s) { ?x :p ?y OPTIONAL { ?x :q ?v } }` with one ?x lacking :q", floor=21)
+        concrete = concrete_classes()
+        accs = sorted(c for c in typed.subclasses(AG + "Accumulator") if c.startswith(AG) and c != AG + "Accumulator")
+        for cfull in accs:
+            cname = cfull[len(AG):]
+            for entry in ("use_row", "update", "set_value"):
+                ms = esc.self_methods(ag, cfull, entry)
+                if not ms:
+                    if cname in concrete:
+                        raise AnalysisError("%s has no %s()" % (cname, entry))
                     continue
-                optional = a.attr in gp[K][1]
-                ok = not optional or H.non_none_guarded(alg, c, norm(a), f)
-                rep.ob("C08.l-grammar-optional-into-mandatory-algebra-field", alg, q, "%s.%s -> %s(%s=)" % (K, a.attr, c.func.id, pname), ok,
-                       ("mandatory in the production" if not optional else "only where it is not None") if ok else
-                       "%s is optional in the production %s (it is None when not written) but is passed unguarded as the mandatory `%s` of %s(...): the algebra node gets None where a term is required"
-                       % (a.attr, K, pname, c.func.id), node=c)
+                out: set[str] = set()
+                for m in ms:
+                    out |= esc.of_function(ag, m, cfull)
+                rep.ob("C08.m-no-solution-error-escapes-row-protocol", ag, "%s.%s" % (cname, entry), "SPARQL errors leaving %s() of a %s" % (entry, cname), not out,
+                       "none" if not out else "%s can leave %s.%s (defined in %s) and nothing between there and the query's caller handles it: one solution without a value for the "
+                       "aggregated expression makes the whole query raise instead of being skipped" % (sorted(out), cname, entry, sorted({ag.qual_of(m) for m in ms})), node=ms[0])
 
-    # ------------------------------------------------------------------ (m)  F103
-    rep.rule("C08.m-no-solution-error-escapes-row-protocol",
-             "Aggregator.update calls acc.use_row(row) and acc.update(row, self) for every solution, Aggregator.get_bindings calls acc.set_value(bindings) for every group, all without a "
-             "try: no SPARQLError (NotBoundError of _eval for an unbound variable, the error an expression evaluated to, SPARQLTypeError of numeric()) may leave one of these methods of "
-             "any accumulator class (resolved per class, including the instance-level re-bindings `self.use_row = self.dont_care` made in __init__) - a solution without a value is skipped, it "
-             "does not abort the query. `SELECT (SUM(DISTINCT ?v) AS ?s) { ?x :p ?y OPTIONAL { ?x :q ?v } }` with one ?x lacking :q", floor=21)
-    accs = sorted(c for c in typed.subclasses(AG + "Accumulator") if c.startswith(AG) and c != AG + "Accumulator")
-    for cfull in accs:
-        cname = cfull[len(AG):]
-        for entry in ("use_row", "update", "set_value"):
-            ms = esc.self_methods(ag, cfull, entry)
-            if not ms:
-                if cname in concrete:
-                    raise AnalysisError("%s has no %s()" % (cname, entry))
+    _layer(rep, _sec_m, repo)
+
+    def _sec_n(repo: Repo, rep: Report) -> None:
+        # ------------------------------------------------------------------ (n)  F106 F107 (and F109)
+        rep.rule("C08.n-eval-result-tested-for-error",
+                 "evalutils._eval RETURNS the SPARQLError an expression evaluated to (it raises only NotBoundError): at every call site the first thing done with the result is "
+                 "isinstance(result, SPARQLError) - before it is counted, compared, stored, used as a group key or bound. (A result that is only the operand of a comparison yields no value.) "
+                 "Otherwise COUNT(1/?z) counts the error objects, MIN/MAX compare them (TypeError), and GROUP BY STRLEN(?iri) makes one group per failing solution since every error object is a key of its own", floor=4)
+        if not any(isinstance(n, ast.FunctionDef) and n.name == "_eval" and n.returns is not None and "SPARQLError" in norm(n.returns) for n in ast.walk(eu.tree)):
+            raise AnalysisError("evalutils._eval no longer declares that it returns SPARQLError values: rule C08.n must be revisited")
+        for mname, m in sorted(repo.modules.items()):
+            if not mname.startswith("rdflib.plugins.sparql") or m is eu:
                 continue
-            out: set[str] = set()
-            for m in ms:
-                out |= esc.of_function(ag, m, cfull)
-            rep.ob("C08.m-no-solution-error-escapes-row-protocol", ag, "%s.%s" % (cname, entry), "SPARQL errors leaving %s() of a %s" % (entry, cname), not out,
-                   "none" if not out else "%s can leave %s.%s (defined in %s) and nothing between there and the query's caller handles it: one solution without a value for the "
-                   "aggregated expression makes the whole query raise instead of being skipped" % (sorted(out), cname, entry, sorted({ag.qual_of(m) for m in ms})), node=ms[0])
-
-    # ------------------------------------------------------------------ (n)  F106 F107 (and F109)
-    rep.rule("C08.n-eval-result-tested-for-error",
-             "evalutils._eval RETURNS the SPARQLError an expression evaluated to (it raises only NotBoundError): at every call site the first thing done with the result is "
-             "isinstance(result, SPARQLError) - before it is counted, compared, stored, used as a group key or bound. (A result that is only the operand of a comparison yields no value.) "
-             "Otherwise COUNT(1/?z) counts the error objects, MIN/MAX compare them (TypeError), and GROUP BY STRLEN(?iri) makes one group per failing solution since every error object is a key of its own", floor=4)
-    if not any(isinstance(n, ast.FunctionDef) and n.name == "_eval" and n.returns is not None and "SPARQLError" in norm(n.returns) for n in ast.walk(eu.tree)):
-        raise AnalysisError("evalutils._eval no longer declares that it returns SPARQLError values: rule C08.n must be revisited")
-    for mname, m in sorted(repo.modules.items()):
-        if not mname.startswith("rdflib.plugins.sparql") or m is eu:
-            continue
-        r = H.resolve_function(repo, m, "_eval")
-        if r is None or r[0] is not eu:
-            continue
-        for c in ast.walk(m.tree):
-            if not (isinstance(c, ast.Call) and isinstance(c.func, ast.Name) and c.func.id == "_eval"):
+            r = H.resolve_function(repo, m, "_eval")
+            if r is None or r[0] is not eu:
                 continue
-            fn = next((p_ for p_ in m.parents(c) if isinstance(p_, (ast.FunctionDef, ast.AsyncFunctionDef))), None)
-            if fn is None:
+            for c in ast.walk(m.tree):
+                if not (isinstance(c, ast.Call) and isinstance(c.func, ast.Name) and c.func.id == "_eval"):
+                    continue
+                fn = next((p_ for p_ in m.parents(c) if isinstance(p_, (ast.FunctionDef, ast.AsyncFunctionDef))), None)
+                if fn is None:
+                    continue
+                where = m.qual_of(c)
+                par_ = m.parent.get(id(c))
+
+                def tested_first(scope: ast.AST, name: str, after: ast.AST) -> bool:
+                    ld = H.first_load_after(scope, name, after)
+                    if ld is None:
+                        return False
+                    call = m.parent.get(id(ld))
+                    return isinstance(call, ast.Call) and norm(call.func) == "isinstance" and len(call.args) == 2 and call.args[0] is ld \
+                        and bool(H.type_names(call.args[1]) & covers_all_errors)
+
+                if isinstance(par_, ast.Compare):
+                    ok, why = True, "only compared (no value flows on)"
+                elif isinstance(par_, (ast.Assign, ast.AnnAssign)) and par_.value is c and isinstance(par_.targets[0] if isinstance(par_, ast.Assign) else par_.target, ast.Name):
+                    tname = (par_.targets[0] if isinstance(par_, ast.Assign) else par_.target).id
+                    ok = tested_first(fn, tname, par_)
+                    why = "tested before any use" if ok else "the result is used without first being tested with isinstance(..., SPARQLError): an error object is handled as if it were a term"
+                elif isinstance(par_, (ast.GeneratorExp, ast.ListComp)) and par_.elt is c and isinstance(m.parent.get(id(par_)), ast.comprehension) \
+                        and m.parent[id(par_)].iter is par_ and isinstance(m.parent[id(par_)].target, ast.Name):
+                    comp = m.parent[id(par_)]
+                    owner = m.parent[id(comp)]
+                    lds = sorted((n for n in ast.walk(owner) if isinstance(n, ast.Name) and n.id == comp.target.id and isinstance(n.ctx, ast.Load)), key=lambda n: (n.lineno, n.col_offset))
+                    call = m.parent.get(id(lds[0])) if lds else None
+                    ok = isinstance(call, ast.Call) and norm(call.func) == "isinstance" and call.args[0] is lds[0] and bool(H.type_names(call.args[1]) & covers_all_errors)
+                    why = "each result tested before use" if ok else "the results are collected without being tested with isinstance(..., SPARQLError)"
+                else:
+                    ok, why = False, "the result of _eval is used directly as a value (in `%s`): an error object is handled as if it were a term - every error object is distinct, so as a " \
+                                     "group key it makes one group per failing solution; counted, sampled or concatenated it is taken for a value" % norm(par_)[:80]
+                rep.ob("C08.n-eval-result-tested-for-error", m, where, c, ok, why, node=c)
+
+    _layer(rep, _sec_n, repo)
+
+    def _sec_o(repo: Repo, rep: Report) -> None:
+        # ------------------------------------------------------------------ (o)  F105
+        rep.rule("C08.o-sort-key-is-total",
+                 "every function used as key= of sorted()/min()/max() in evaluate.py and aggregates.py (ORDER BY, MIN, MAX) returns a key on every path, whatever it is given: an ORDER BY "
+                 "expression that is an error for some solution hands the error object to the key function; falling off the end returns None and sorted() raises TypeError comparing None with a tuple "
+                 "(`ORDER BY (1/?z)` with one ?z = 0). The function is whatever the key= expression evaluates to: a def, a lambda handing on to one, a functools.partial of one, "
+                 "the __call__ of an instance of a class of the package, a local bound to one of these", floor=3)
+        # the callable a key= expression evaluates to (H.key_chain): a lambda or a nested def that only hands its argument on to a function of the package is followed;
+        # every function on the way has to return on every path, the last one computes the key
+        key_sites = H.sort_key_sites(repo, (ev, ag))
+        for m, c, chain in key_sites:
+            if not chain:
+                # an expression (lambda not delegating to a function of the library) or a builtin: yields a value by construction
+                rep.ob("C08.o-sort-key-is-total", m, m.qual_of(c), "%s(key=<expression>)" % c.func.id, True, "the key is an expression, not a function with paths", node=c, vacuous=True)
                 continue
-            where = m.qual_of(c)
-            par_ = m.parent.get(id(c))
+            partial = [(km, kf) for km, kf, _s in chain if not H.always_returns_value(kf.body)]
+            total = not partial
+            rep.ob("C08.o-sort-key-is-total", m, m.qual_of(c), "%s(key=%s)" % (c.func.id, chain[-1][1].name), total,
+                   "returns a key on every path" if total else "%s.%s has a path that falls off the end (returns None) - taken for an argument that matches none of its tests, e.g. the "
+                   "error object an ORDER BY expression evaluated to: None and a tuple are not comparable, sorted() raises TypeError" % (partial[0][0].rel, partial[0][1].name), node=c)
 
-            def tested_first(scope: ast.AST, name: str, after: ast.AST) -> bool:
-                ld = H.first_load_after(scope, name, after)
-                if ld is None:
-                    return False
-                call = m.parent.get(id(ld))
-                return isinstance(call, ast.Call) and norm(call.func) == "isinstance" and len(call.args) == 2 and call.args[0] is ld \
-                    and bool(H.type_names(call.args[1]) & covers_all_errors)
+    _layer(rep, _sec_o, repo)
 
-            if isinstance(par_, ast.Compare):
-                ok, why = True, "only compared (no value flows on)"
-            elif isinstance(par_, (ast.Assign, ast.AnnAssign)) and par_.value is c and isinstance(par_.targets[0] if isinstance(par_, ast.Assign) else par_.target, ast.Name):
-                tname = (par_.targets[0] if isinstance(par_, ast.Assign) else par_.target).id
-                ok = tested_first(fn, tname, par_)
-                why = "tested before any use" if ok else "the result is used without first being tested with isinstance(..., SPARQLError): an error object is handled as if it were a term"
-            elif isinstance(par_, (ast.GeneratorExp, ast.ListComp)) and par_.elt is c and isinstance(m.parent.get(id(par_)), ast.comprehension) \
-                    and m.parent[id(par_)].iter is par_ and isinstance(m.parent[id(par_)].target, ast.Name):
-                comp = m.parent[id(par_)]
-                owner = m.parent[id(comp)]
-                lds = sorted((n for n in ast.walk(owner) if isinstance(n, ast.Name) and n.id == comp.target.id and isinstance(n.ctx, ast.Load)), key=lambda n: (n.lineno, n.col_offset))
-                call = m.parent.get(id(lds[0])) if lds else None
-                ok = isinstance(call, ast.Call) and norm(call.func) == "isinstance" and call.args[0] is lds[0] and bool(H.type_names(call.args[1]) & covers_all_errors)
-                why = "each result tested before use" if ok else "the results are collected without being tested with isinstance(..., SPARQLError)"
-            else:
-                ok, why = False, "the result of _eval is used directly as a value (in `%s`): an error object is handled as if it were a term - every error object is distinct, so as a " \
-                                 "group key it makes one group per failing solution; counted, sampled or concatenated it is taken for a value" % norm(par_)[:80]
-            rep.ob("C08.n-eval-result-tested-for-error", m, where, c, ok, why, node=c)
+    def _sec_p(repo: Repo, rep: Report) -> None:
+        # ------------------------------------------------------------------ (p)  F108
+        rep.rule("C08.p-sort-key-number-block-agrees-with-literal-order",
+                 "Literal.__gt__ compares two literals by value when both satisfy its `is a number` predicate (datatype in _NUMERIC_LITERAL_TYPES, well typed, has a value) and otherwise by "
+                 "datatype / lexical form; that is only an order if numbers form one block. The ORDER BY / MIN / MAX key function therefore puts, before the literal itself, a component computed "
+                 "with exactly that predicate. Without it `ORDER BY ?v` over \"0abc\"^^xsd:integer, 5, 9.0e0 is cyclic (\"0abc\" < 5 by text, 5 < 9.0e0 by value, 9.0e0 < \"0abc\" numbers first) "
+                 "and the result depends on the input order. (The predicate may be written out or be a computed property of Literal read on the object: a read stands for the property's body)", floor=1)
+        term = repo.mod("rdflib.term")
+        gt = term.func("Literal.__gt__")
+        selfname = gt.args.args[0].arg
 
-    # ------------------------------------------------------------------ (o)  F105
-    rep.rule("C08.o-sort-key-is-total",
-             "every function used as key= of sorted()/min()/max() in evaluate.py and aggregates.py (ORDER BY, MIN, MAX) returns a key on every path, whatever it is given: an ORDER BY "
-             "expression that is an error for some solution hands the error object to the key function; falling off the end returns None and sorted() raises TypeError comparing None with a tuple "
-             "(`ORDER BY (1/?z)` with one ?z = 0)", floor=3)
-    # the callable a key= expression evaluates to (H.key_chain): a lambda or a nested def that only hands its argument on to a function of the package is followed;
-    # every function on the way has to return on every path, the last one computes the key
-    key_sites = H.sort_key_sites(repo, (ev, ag))
-    for m, c, chain in key_sites:
-        if not chain:
-            # an expression (lambda not delegating to a function of the library) or a builtin: yields a value by construction
-            rep.ob("C08.o-sort-key-is-total", m, m.qual_of(c), "%s(key=<expression>)" % c.func.id, True, "the key is an expression, not a function with paths", node=c, vacuous=True)
-            continue
-        partial = [(km, kf) for km, kf, _s in chain if not H.always_returns_value(kf.body)]
-        total = not partial
-        rep.ob("C08.o-sort-key-is-total", m, m.qual_of(c), "%s(key=%s)" % (c.func.id, chain[-1][1].name), total,
-               "returns a key on every path" if total else "%s.%s has a path that falls off the end (returns None) - taken for an argument that matches none of its tests, e.g. the "
-               "error object an ORDER BY expression evaluated to: None and a tuple are not comparable, sorted() raises TypeError" % (partial[0][0].rel, partial[0][1].name), node=c)
-
-    # ------------------------------------------------------------------ (p)  F108
-    rep.rule("C08.p-sort-key-number-block-agrees-with-literal-order",
-             "Literal.__gt__ compares two literals by value when both satisfy its `is a number` predicate (datatype in _NUMERIC_LITERAL_TYPES, well typed, has a value) and otherwise by "
-             "datatype / lexical form; that is only an order if numbers form one block. The ORDER BY / MIN / MAX key function therefore puts, before the literal itself, a component computed "
-             "with exactly that predicate. Without it `ORDER BY ?v` over \"0abc\"^^xsd:integer, 5, 9.0e0 is cyclic (\"0abc\" < 5 by text, 5 < 9.0e0 by value, 9.0e0 < \"0abc\" numbers first) "
-             "and the result depends on the input order", floor=1)
-    term = repo.mod("rdflib.term")
-    gt = term.func("Literal.__gt__")
-    selfname = gt.args.args[0].arg
-
-    def conjuncts(e: ast.AST, subject: str) -> frozenset[str]:
-        out = set()
-        for v in e.values:  # type: ignore[attr-defined]
-            t = ast.parse(norm(v), mode="eval").body
-            for n in ast.walk(t):
-                if isinstance(n, ast.Name) and n.id == subject:
-                    n.id = "SUBJECT"
-            out.add(norm(t))
-        return frozenset(out)
-
-    def is_membership(e: ast.AST) -> bool:
-        """one conjunct is `<x>.datatype in <module-level table>`"""
-        return any(isinstance(x, ast.Compare) and len(x.ops) == 1 and isinstance(x.ops[0], ast.In) and isinstance(x.comparators[0], ast.Name)
-                   and isinstance(x.left, ast.Attribute) and x.left.attr == "datatype" for x in ast.walk(e))
-
-    lit_pred = {conjuncts(b, selfname) for b in own_nodes(gt) if isinstance(b, ast.BoolOp) and isinstance(b.op, ast.And) and is_membership(b)
-                and all(selfname in {n.id for n in ast.walk(v) if isinstance(n, ast.Name)} for v in b.values)}
-    if len(lit_pred) != 1:
-        raise AnalysisError("Literal.__gt__: the predicate selecting comparison by value (datatype in <numeric types> and ...) not found uniquely: %s" % sorted(map(sorted, lit_pred)))
-    want = next(iter(lit_pred))
-    # The key functions that order TERMS, by role: the key of a sort in the evaluator of the OrderBy node and in the accumulator classes (MIN / MAX) must have a
-    # branch for literals (else the rule has lost its anchor); a key function elsewhere (e.g. the count of unbound positions by which the triple patterns of a
-    # BGP are arranged) is looked at if it has one, and is not a key over terms otherwise.
-    term_keys = H.term_key_functions(repo, ev, ag, key_sites)
-    if not term_keys:
-        raise AnalysisError("no sort key function found")
-    for km, kfn, p0, lit_returns in term_keys:
-        params = {a.arg for a in kfn.args.args}
-        for rt in lit_returns:
-            if rt.value is None:
-                continue
-            elts = rt.value.elts if isinstance(rt.value, ast.Tuple) else [rt.value]
-            idx = next((i for i, e in enumerate(elts) if isinstance(e, ast.Name) and e.id == p0), len(elts))
-            got = set()
-            for e in elts[:idx]:
-                for x in H.expand_locals(kfn, e, params):
-                    for b in ast.walk(x):
-                        if isinstance(b, ast.BoolOp) and isinstance(b.op, ast.And):
-                            got.add(conjuncts(b, p0))
-            ok = want in got
-            rep.ob("C08.p-sort-key-number-block-agrees-with-literal-order", km, kfn.name, "key of a Literal: %s" % norm(rt.value), ok,
-                   "numbers first, by Literal.__gt__'s own predicate" if ok else
-                   "the key of a literal has no component before the literal itself that is computed with Literal.__gt__'s predicate %s%s: numbers (ordered by value across datatypes) are interleaved "
-                   "with the literals ordered by datatype and text, the comparison is cyclic" % (sorted(want), " (found %s)" % sorted(map(sorted, got)) if got else ""), node=rt)
-
-    # ------------------------------------------------------------------ (q)  F104
-    rep.rule("C08.q-no-aggregate-binds-None",
-             "for every class in Aggregator.accumulator_classes the set_value() it resolves to stores into the group's bindings only a term: a stored `self.get_value()` whose resolved "
-             "get_value() can return None (declared `-> None` / `| None`, returns None, or falls through) must be guarded by a None test. SAMPLE over no value (`SELECT ?g (SAMPLE(?u) AS ?s) "
-             "... GROUP BY ?g` with ?u never bound; also every unbound GROUP BY key, which is sampled) otherwise binds Python None: joins, DISTINCT and the serializers break", floor=7)
-    for cname in concrete:
-        owner, sv = resolved(cname, "set_value")
-        if sv is None:
-            raise AnalysisError("%s: set_value() not resolved" % cname)
-        if len(sv.args.args) < 2:
-            raise AnalysisError("%s.set_value: signature not recognised" % owner)
-        bparam = sv.args.args[1].arg
-        stores = [s_ for s_ in own_nodes(sv) if isinstance(s_, ast.Assign) and any(isinstance(t, ast.Subscript) and norm(t.value) == bparam for t in s_.targets)]
-        bad = None
-        for s_ in stores:
-            v = s_.value
-            if isinstance(v, ast.Constant) and v.value is None:
-                bad = (s_, "None")
-            if isinstance(v, ast.Call) and isinstance(v.func, ast.Attribute) and norm(v.func.value) == sv.args.args[0].arg and not v.args:
-                gowner, gv = resolved(cname, v.func.attr)
-                if gv is None:
-                    raise AnalysisError("%s: %s() not resolved" % (cname, v.func.attr))
-                nullable = (gv.returns is not None and ("None" in norm(gv.returns) or "Optional" in norm(gv.returns))) or not H.always_returns_value(gv.body) \
-                    or any(isinstance(x, ast.Return) and isinstance(x.value, ast.Constant) and x.value.value is None for x in own_nodes(gv))
-                if nullable and not H.non_none_guarded(ag, s_, norm(v), sv):
-                    bad = (s_, "%s.%s() which can return None" % (gowner, v.func.attr))
-        rep.ob("C08.q-no-aggregate-binds-None", ag, "%s.set_value" % cname, "%s: %s" % (ag.qual_of(sv) or owner, "; ".join(norm(s_) for s_ in stores) or "binds nothing"), bad is None,
-               "binds a term (or nothing)" if bad is None else "%s (used for %s) stores %s into the bindings: the variable is bound to Python None instead of staying unbound" % (
-                   "%s.set_value" % owner, cname, bad[1]), node=bad[0] if bad else sv)
-
-    # ------------------------------------------------------------------ (r)  F109
-    rep.rule("C08.r-numeric-aggregate-records-type-error",
-             "an accumulator whose update() converts the value with operators.numeric() (SUM, AVG: numeric-add is an error for a term that is not a number) does not swallow numeric()'s "
-             "SPARQLTypeError: the handler that catches it stores a mark on self, the set_value() the class resolves to binds the variable only under a test of that mark, and the handler "
-             "for NotBoundError (unbound: skipped) sets no mark. `SELECT (SUM(?v) AS ?s)` over 1, 2, \"x\" leaves ?s unbound (W3C agg-err-01) instead of answering 3", floor=6)
-    opm = repo.mod("rdflib.plugins.sparql.operators")
-    n_num = 0
-    for cname in concrete:
-        owner, upd = resolved(cname, "update")
-        if upd is None:
-            raise AnalysisError("%s: update() not resolved" % cname)
-        calls = []
-        for c in own_nodes(upd):
-            if isinstance(c, ast.Call) and isinstance(c.func, ast.Name):
-                r = H.resolve_function(repo, ag, c.func.id)
-                if r is not None and r[0] is opm and r[1].name == "numeric":
-                    calls.append((c, r))
-        if not calls:
-            continue
-        n_num += 1
-        kinds = esc.of_function(calls[0][1][0], calls[0][1][1])
-        if not kinds:
-            raise AnalysisError("operators.numeric raises no SPARQL error any more: rule C08.r must be revisited")
-        selfn = upd.args.args[0].arg
-
-        def marks(h: ast.ExceptHandler) -> set[str]:
+        def conjuncts(e: ast.AST, subject: str) -> frozenset[str]:
             out = set()
-            for s_ in h.body:
-                for x in ast.walk(s_):
-                    tg = x.targets if isinstance(x, ast.Assign) else [x.target] if isinstance(x, (ast.AugAssign, ast.AnnAssign)) else []
-                    out |= {t.attr for t in tg if isinstance(t, ast.Attribute) and norm(t.value) == selfn}
-            return out
+            for v in e.values:  # type: ignore[attr-defined]
+                t = ast.parse(norm(v), mode="eval").body
+                for n in ast.walk(t):
+                    if isinstance(n, ast.Name) and n.id == subject:
+                        n.id = "SUBJECT"
+                out.add(norm(t))
+            return frozenset(out)
 
-        flags: set[str] = set()
-        for c, _r in calls:
-            tries = [p_ for p_ in ag.parents(c) if isinstance(p_, ast.Try) and any(c in ast.walk(s_) for s_ in p_.body)]
-            for kind in sorted(kinds):
-                h = next((h for t in tries for h in t.handlers if esc.catches(h, kind)), None)
-                mk = marks(h) if h is not None else set()
-                flags |= mk
-                ok = bool(mk)
-                rep.ob("C08.r-numeric-aggregate-records-type-error", ag, "%s.update" % cname, "handler of %s from numeric()" % kind, ok,
-                       "recorded in self.%s" % sorted(mk) if ok else "the %s numeric() raises for a term that is not a number is %s: the aggregate silently sums the remaining numbers instead of being an error" % (
-                           kind, "not handled here" if h is None else "caught by `except %s` which records nothing on self" % norm(h.type)), node=h or c)
-            hb = next((h for t in tries for h in t.handlers if esc.catches(h, "NotBoundError")), None)
-            ok = hb is not None and not marks(hb)
-            rep.ob("C08.r-numeric-aggregate-records-type-error", ag, "%s.update" % cname, "handler of NotBoundError", ok,
-                   "skips the solution" if ok else "an unbound variable is not skipped (handler %s): a solution without a value makes the aggregate an error" % (norm(hb.type) if hb is not None and hb.type is not None else hb), node=hb or c)
-        if not flags:
-            rep.ob("C08.r-numeric-aggregate-records-type-error", ag, "%s.set_value" % cname, "set_value consults the error mark", False,
-                   "%s.update records no error mark on self, so set_value cannot leave the variable unbound for an aggregate that is an error" % cname, node=upd)
-        else:
-            sowner, sv = resolved(cname, "set_value")
+        def is_membership(e: ast.AST) -> bool:
+            """one conjunct is `<x>.datatype in <module-level table>`"""
+            return any(isinstance(x, ast.Compare) and len(x.ops) == 1 and isinstance(x.ops[0], ast.In) and isinstance(x.comparators[0], ast.Name)
+                       and isinstance(x.left, ast.Attribute) and x.left.attr == "datatype" for x in ast.walk(e))
+
+        # the predicate may be written out in __gt__ or be the body of a property of Literal that __gt__ reads on self (and the key function on its argument):
+        # a read of such a property stands for its body with self replaced by the object it is read on
+        props = H.simple_properties(repo, term, "Literal")
+
+        def conjunctions(nodes, subject: str):
+            for b in nodes:
+                for x in [b] + ([H.expand_property_reads(b, props)] if isinstance(b, ast.Attribute) and b.attr in props else []):
+                    if isinstance(x, ast.BoolOp) and isinstance(x.op, ast.And):
+                        yield x
+
+        lit_pred = {conjuncts(b, selfname) for b in conjunctions(own_nodes(gt), selfname) if is_membership(b)
+                    and all(selfname in {n.id for n in ast.walk(v) if isinstance(n, ast.Name)} for v in b.values)}
+        if len(lit_pred) != 1:
+            raise AnalysisError("Literal.__gt__: the predicate selecting comparison by value (datatype in <numeric types> and ...) not found uniquely: %s" % sorted(map(sorted, lit_pred)))
+        want = next(iter(lit_pred))
+        # The key functions that order TERMS, by role: the key of a sort in the evaluator of the OrderBy node and in the accumulator classes (MIN / MAX) must have a
+        # branch for literals (else the rule has lost its anchor); a key function elsewhere (e.g. the count of unbound positions by which the triple patterns of a
+        # BGP are arranged) is looked at if it has one, and is not a key over terms otherwise.
+        term_keys = H.term_key_functions(repo, ev, ag, H.sort_key_sites(repo, (ev, ag)))
+        if not term_keys:
+            raise AnalysisError("no sort key function found")
+        for km, kfn, p0, lit_returns in term_keys:
+            params = {a.arg for a in kfn.args.args}
+            for rt in lit_returns:
+                if rt.value is None:
+                    continue
+                elts = rt.value.elts if isinstance(rt.value, ast.Tuple) else [rt.value]
+                idx = next((i for i, e in enumerate(elts) if isinstance(e, ast.Name) and e.id == p0), len(elts))
+                got = set()
+                for e in elts[:idx]:
+                    for x in H.expand_locals(kfn, e, params):
+                        # (the returns looked at are reached only with the parameter known to be a Literal: a property read on it is Literal's)
+                        for b in conjunctions(ast.walk(x), p0):
+                            got.add(conjuncts(b, p0))
+                ok = want in got
+                rep.ob("C08.p-sort-key-number-block-agrees-with-literal-order", km, kfn.name, "key of a Literal: %s" % norm(rt.value), ok,
+                       "numbers first, by Literal.__gt__'s own predicate" if ok else
+                       "the key of a literal has no component before the literal itself that is computed with Literal.__gt__'s predicate %s%s: numbers (ordered by value across datatypes) are interleaved "
+                       "with the literals ordered by datatype and text, the comparison is cyclic" % (sorted(want), " (found %s)" % sorted(map(sorted, got)) if got else ""), node=rt)
+
+    _layer(rep, _sec_p, repo)
+
+    def _sec_q(repo: Repo, rep: Report) -> None:
+        # ------------------------------------------------------------------ (q)  F104
+        rep.rule("C08.q-no-aggregate-binds-None",
+                 "for every class in Aggregator.accumulator_classes the set_value() it resolves to stores into the group's bindings only a term: a stored `self.get_value()` whose resolved "
+                 "get_value() can return None (declared `-> None` / `| None`, returns None, or falls through) must be guarded by a None test. SAMPLE over no value (`SELECT ?g (SAMPLE(?u) AS ?s) "
+                 "... GROUP BY ?g` with ?u never bound; also every unbound GROUP BY key, which is sampled) otherwise binds Python None: joins, DISTINCT and the serializers break", floor=7)
+        for cname in concrete_classes():
+            owner, sv = resolved(cname, "set_value")
             if sv is None:
                 raise AnalysisError("%s: set_value() not resolved" % cname)
+            if len(sv.args.args) < 2:
+                raise AnalysisError("%s.set_value: signature not recognised" % owner)
             bparam = sv.args.args[1].arg
             stores = [s_ for s_ in own_nodes(sv) if isinstance(s_, ast.Assign) and any(isinstance(t, ast.Subscript) and norm(t.value) == bparam for t in s_.targets)]
-            unguarded = [s_ for s_ in stores if not any(isinstance(p_, ast.If) and any(isinstance(a, ast.Attribute) and a.attr in flags and norm(a.value) == sv.args.args[0].arg for a in ast.walk(p_.test))
-                                                         for p_ in ag.parents(s_))]
-            ok = bool(stores) and not unguarded
-            rep.ob("C08.r-numeric-aggregate-records-type-error", ag, "%s.set_value" % cname, "%s.set_value binds under a test of self.%s" % (sowner, sorted(flags)), ok,
-                   "an aggregate that is an error leaves the variable unbound" if ok else "%s.set_value binds the variable without consulting self.%s: the error mark set by update() has no effect" % (sowner, sorted(flags)),
-                   node=unguarded[0] if unguarded else sv)
-    if n_num < 2:
-        raise AnalysisError("expected SUM and AVG to convert with operators.numeric(); found %d such accumulator(s)" % n_num)
+            bad = None
+            for s_ in stores:
+                v = s_.value
+                if isinstance(v, ast.Constant) and v.value is None:
+                    bad = (s_, "None")
+                if isinstance(v, ast.Call) and isinstance(v.func, ast.Attribute) and norm(v.func.value) == sv.args.args[0].arg and not v.args:
+                    gowner, gv = resolved(cname, v.func.attr)
+                    if gv is None:
+                        raise AnalysisError("%s: %s() not resolved" % (cname, v.func.attr))
+                    nullable = (gv.returns is not None and ("None" in norm(gv.returns) or "Optional" in norm(gv.returns))) or not H.always_returns_value(gv.body) \
+                        or any(isinstance(x, ast.Return) and isinstance(x.value, ast.Constant) and x.value.value is None for x in own_nodes(gv))
+                    if nullable and not H.non_none_guarded(ag, s_, norm(v), sv):
+                        bad = (s_, "%s.%s() which can return None" % (gowner, v.func.attr))
+            rep.ob("C08.q-no-aggregate-binds-None", ag, "%s.set_value" % cname, "%s: %s" % (ag.qual_of(sv) or owner, "; ".join(norm(s_) for s_ in stores) or "binds nothing"), bad is None,
+                   "binds a term (or nothing)" if bad is None else "%s (used for %s) stores %s into the bindings: the variable is bound to Python None instead of staying unbound" % (
+                       "%s.set_value" % owner, cname, bad[1]), node=bad[0] if bad else sv)
+
+    _layer(rep, _sec_q, repo)
+
+    def _sec_r(repo: Repo, rep: Report) -> None:
+        # ------------------------------------------------------------------ (r)  F109
+        rep.rule("C08.r-numeric-aggregate-records-type-error",
+                 "an accumulator whose update() converts the value with operators.numeric() (SUM, AVG: numeric-add is an error for a term that is not a number) does not swallow numeric()'s "
+                 "SPARQLTypeError: the handler that catches it stores a mark on self, the set_value() the class resolves to binds the variable only under a test of that mark, and the handler "
+                 "for NotBoundError (unbound: skipped) sets no mark. `SELECT (SUM(?v) AS ?s)` over 1, 2, \"x\" leaves ?s unbound (W3C agg-err-01) instead of answering 3", floor=6)
+        opm = repo.mod("rdflib.plugins.sparql.operators")
+        n_num = 0
+        for cname in concrete_classes():
+            owner, upd = resolved(cname, "update")
+            if upd is None:
+                raise AnalysisError("%s: update() not resolved" % cname)
+            calls = []
+            for c in own_nodes(upd):
+                if isinstance(c, ast.Call) and isinstance(c.func, ast.Name):
+                    r = H.resolve_function(repo, ag, c.func.id)
+                    if r is not None and r[0] is opm and r[1].name == "numeric":
+                        calls.append((c, r))
+            if not calls:
+                continue
+            n_num += 1
+            kinds = esc.of_function(calls[0][1][0], calls[0][1][1])
+            if not kinds:
+                raise AnalysisError("operators.numeric raises no SPARQL error any more: rule C08.r must be revisited")
+            selfn = upd.args.args[0].arg
+
+            def marks(h: ast.ExceptHandler) -> set[str]:
+                out = set()
+                for s_ in h.body:
+                    for x in ast.walk(s_):
+                        tg = x.targets if isinstance(x, ast.Assign) else [x.target] if isinstance(x, (ast.AugAssign, ast.AnnAssign)) else []
+                        out |= {t.attr for t in tg if isinstance(t, ast.Attribute) and norm(t.value) == selfn}
+                return out
+
+            flags: set[str] = set()
+            for c, _r in calls:
+                tries = [p_ for p_ in ag.parents(c) if isinstance(p_, ast.Try) and any(c in ast.walk(s_) for s_ in p_.body)]
+                for kind in sorted(kinds):
+                    h = next((h for t in tries for h in t.handlers if esc.catches(h, kind)), None)
+                    mk = marks(h) if h is not None else set()
+                    flags |= mk
+                    ok = bool(mk)
+                    rep.ob("C08.r-numeric-aggregate-records-type-error", ag, "%s.update" % cname, "handler of %s from numeric()" % kind, ok,
+                           "recorded in self.%s" % sorted(mk) if ok else "the %s numeric() raises for a term that is not a number is %s: the aggregate silently sums the remaining numbers instead of being an error" % (
+                               kind, "not handled here" if h is None else "caught by `except %s` which records nothing on self" % norm(h.type)), node=h or c)
+                hb = next((h for t in tries for h in t.handlers if esc.catches(h, "NotBoundError")), None)
+                ok = hb is not None and not marks(hb)
+                rep.ob("C08.r-numeric-aggregate-records-type-error", ag, "%s.update" % cname, "handler of NotBoundError", ok,
+                       "skips the solution" if ok else "an unbound variable is not skipped (handler %s): a solution without a value makes the aggregate an error" % (norm(hb.type) if hb is not None and hb.type is not None else hb), node=hb or c)
+            if not flags:
+                rep.ob("C08.r-numeric-aggregate-records-type-error", ag, "%s.set_value" % cname, "set_value consults the error mark", False,
+                       "%s.update records no error mark on self, so set_value cannot leave the variable unbound for an aggregate that is an error" % cname, node=upd)
+            else:
+                sowner, sv = resolved(cname, "set_value")
+                if sv is None:
+                    raise AnalysisError("%s: set_value() not resolved" % cname)
+                bparam = sv.args.args[1].arg
+                stores = [s_ for s_ in own_nodes(sv) if isinstance(s_, ast.Assign) and any(isinstance(t, ast.Subscript) and norm(t.value) == bparam for t in s_.targets)]
+                unguarded = [s_ for s_ in stores if not any(isinstance(p_, ast.If) and any(isinstance(a, ast.Attribute) and a.attr in flags and norm(a.value) == sv.args.args[0].arg for a in ast.walk(p_.test))
+                                                             for p_ in ag.parents(s_))]
+                ok = bool(stores) and not unguarded
+                rep.ob("C08.r-numeric-aggregate-records-type-error", ag, "%s.set_value" % cname, "%s.set_value binds under a test of self.%s" % (sowner, sorted(flags)), ok,
+                       "an aggregate that is an error leaves the variable unbound" if ok else "%s.set_value binds the variable without consulting self.%s: the error mark set by update() has no effect" % (sowner, sorted(flags)),
+                       node=unguarded[0] if unguarded else sv)
+        if n_num < 2:
+            raise AnalysisError("expected SUM and AVG to convert with operators.numeric(); found %d such accumulator(s)" % n_num)
+
+    _layer(rep, _sec_r, repo)
+
 
 
 _run_base4 = run
@@ -829,304 +922,328 @@ def run(repo: Repo, rep: Report) -> None:  # noqa: F811
             if p_ is stop:
                 return
 
-    # ------------------------------------------------------------------ (s)  F273
-    rep.rule("C08.s-no-positional-algebra-navigation",
-             "evaluate.py: an evaluator looks at its own node and hands the operands (.p / .p1 / .p2) to evalPart; it never takes a second operand step from an operand (x.p.p, or y.p of a "
-             "local y = x.p) unless the kind of that operand was tested (`<operand>.name` in an enclosing if / while). What lies below the root depends on the solution modifiers written: "
-             "`CONSTRUCT WHERE { ?s ?p ?o } LIMIT 1` is ConstructQuery(Slice(Project(BGP))), reading the template as query.p.p.triples finds None there and the query raises TypeError",
-             floor=12)
-    for q, f in ev.functions():
-        sites = [n for n in own_nodes(f) if isinstance(n, ast.Attribute) and n.attr in P]
-        if not sites:
-            continue
-        derived = {t.id for a in own_nodes(f) if isinstance(a, ast.Assign) and isinstance(a.value, ast.Attribute) and a.value.attr in P for t in a.targets if isinstance(t, ast.Name)}
-        bad = None
-        for n in sites:
-            b = n.value
-            if not ((isinstance(b, ast.Attribute) and b.attr in P) or (isinstance(b, ast.Name) and b.id in derived)):
+    def _sec_s(repo: Repo, rep: Report) -> None:
+        # ------------------------------------------------------------------ (s)  F273
+        rep.rule("C08.s-no-positional-algebra-navigation",
+                 "evaluate.py: an evaluator looks at its own node and hands the operands (.p / .p1 / .p2) to evalPart; it never takes a second operand step from an operand (x.p.p, or y.p of a "
+                 "local y = x.p) unless the kind of that operand was tested (`<operand>.name` in an enclosing if / while). What lies below the root depends on the solution modifiers written: "
+                 "`CONSTRUCT WHERE { ?s ?p ?o } LIMIT 1` is ConstructQuery(Slice(Project(BGP))), reading the template as query.p.p.triples finds None there and the query raises TypeError",
+                 floor=12)
+        for q, f in ev.functions():
+            sites = [n for n in own_nodes(f) if isinstance(n, ast.Attribute) and n.attr in P]
+            if not sites:
                 continue
-            tested = any(isinstance(a, ast.Attribute) and a.attr == "name" and norm(a.value) == norm(b)
-                         for g_ in enclosing(ev, n, (ast.If, ast.While, ast.IfExp), f) for a in ast.walk(g_.test))
-            if not tested:
-                bad = n
-        rep.analysed("rdflib/plugins/sparql/evaluate.py:" + q)
-        rep.ob("C08.s-no-positional-algebra-navigation", ev, q, "operand steps of %s" % q if bad is None else bad, bad is None,
-               "one step, or the operand's kind is tested first" if bad is None else
-               "%s takes an operand step from an operand whose kind was not tested: with a solution modifier (LIMIT, ORDER BY, DISTINCT) around the pattern another node is there and the field read is None" % norm(bad),
-               node=bad or f)
+            derived = {t.id for a in own_nodes(f) if isinstance(a, ast.Assign) and isinstance(a.value, ast.Attribute) and a.value.attr in P for t in a.targets if isinstance(t, ast.Name)}
+            bad = None
+            for n in sites:
+                b = n.value
+                if not ((isinstance(b, ast.Attribute) and b.attr in P) or (isinstance(b, ast.Name) and b.id in derived)):
+                    continue
+                tested = any(isinstance(a, ast.Attribute) and a.attr == "name" and norm(a.value) == norm(b)
+                             for g_ in enclosing(ev, n, (ast.If, ast.While, ast.IfExp), f) for a in ast.walk(g_.test))
+                if not tested:
+                    bad = n
+            rep.analysed("rdflib/plugins/sparql/evaluate.py:" + q)
+            rep.ob("C08.s-no-positional-algebra-navigation", ev, q, "operand steps of %s" % q if bad is None else bad, bad is None,
+                   "one step, or the operand's kind is tested first" if bad is None else
+                   "%s takes an operand step from an operand whose kind was not tested: with a solution modifier (LIMIT, ORDER BY, DISTINCT) around the pattern another node is there and the field read is None" % norm(bad),
+                   node=bad or f)
 
-    # ------------------------------------------------------------------ (t)  F274
-    rep.rule("C08.t-pushed-evaluation-gated-by-lazy",
-             "evaluate.py: an operand is evaluated with the solutions of its sibling operand pushed in (`evalPart(ctx.thaw(a), node.pK)` inside a loop over the solutions of node.pJ) only "
-             "where node.lazy holds - in the branch of a test of node.lazy, after `if node.lazy is False: ...; return`, or in a function only called from such a branch - and analyse() stores "
-             "n[\"lazy\"] for every node kind whose evaluator reads it (a missing field reads as None). Otherwise `?s :p ?o OPTIONAL { SELECT ?o ?x { ?o :q ?x } LIMIT 1 }` takes the LIMIT of the "
-             "sub-select per left solution, i.e. of the sequence already restricted to that ?o, instead of once", floor=5)
-    table = H.dispatch_table(ev)
-    if len(table) < 15 or "LeftJoin" not in table or "AggregateJoin" not in table:
-        raise AnalysisError("evalPart: dispatch on part.name not recognised (%s)" % sorted(table))
-    ev_evalpart = ev.func("evalPart")
+    _layer(rep, _sec_s, repo)
+
+    # shared by (t) and (u): the dispatch of evalPart, the operands of a node, analyse()
+    def evaluator_table() -> dict[str, str]:
+        table = H.dispatch_table(ev)
+        if len(table) < 15 or "LeftJoin" not in table or "AggregateJoin" not in table:
+            raise AnalysisError("evalPart: dispatch on part.name not recognised (%s)" % sorted(table))
+        return table
 
     def node_param(f):
         return f.args.args[1].arg if len(f.args.args) >= 2 else None
 
     def operand_call(c, nodep):
         """c is evalPart(<ctx>, <nodep>.pK)"""
-        return isinstance(c, ast.Call) and isinstance(c.func, ast.Name) and c.func.id == ev_evalpart.name and len(c.args) == 2 \
+        return isinstance(c, ast.Call) and isinstance(c.func, ast.Name) and c.func.id == ev.func("evalPart").name and len(c.args) == 2 \
             and isinstance(c.args[1], ast.Attribute) and c.args[1].attr in P and isinstance(c.args[1].value, ast.Name) and c.args[1].value.id == nodep
 
     def is_thaw(e):
         return isinstance(e, ast.Call) and isinstance(e.func, ast.Attribute) and e.func.attr == "thaw"
 
-    for q, f in ev.functions():
-        nodep = node_param(f)
-        if nodep is None or "." in q:
-            continue
-        for c in own_nodes(f):
-            if not operand_call(c, nodep):
+    def _sec_t(repo: Repo, rep: Report) -> None:
+        # ------------------------------------------------------------------ (t)  F274
+        rep.rule("C08.t-pushed-evaluation-gated-by-lazy",
+                 "evaluate.py: an operand is evaluated with the solutions of its sibling operand pushed in (`evalPart(ctx.thaw(a), node.pK)` inside a loop over the solutions of node.pJ) only "
+                 "where node.lazy holds - in the branch of a test of node.lazy, after `if node.lazy is False: ...; return`, or in a function only called from such a branch - and analyse() stores "
+                 "n[\"lazy\"] for every node kind whose evaluator reads it (a missing field reads as None). Otherwise `?s :p ?o OPTIONAL { SELECT ?o ?x { ?o :q ?x } LIMIT 1 }` takes the LIMIT of the "
+                 "sub-select per left solution, i.e. of the sequence already restricted to that ?o, instead of once", floor=5)
+        table = evaluator_table()
+        for q, f in ev.functions():
+            nodep = node_param(f)
+            if nodep is None or "." in q:
                 continue
-            a0 = c.args[0]
-            pushed = is_thaw(a0) or (isinstance(a0, ast.Name) and any(is_thaw(v) for v in H.local_values(f, a0.id)))
-            if not pushed:
+            for c in own_nodes(f):
+                if not operand_call(c, nodep):
+                    continue
+                a0 = c.args[0]
+                pushed = is_thaw(a0) or (isinstance(a0, ast.Name) and any(is_thaw(v) for v in H.local_values(f, a0.id)))
+                if not pushed:
+                    continue
+                # ... inside a loop over the solutions of another operand of the same node
+                loops = [l for l in enclosing(ev, c, (ast.For,), f) if any(operand_call(x, nodep) and x is not c for x in ast.walk(l.iter))]
+                if not loops:
+                    continue
+                gated = H.flag_gated(ev, f, c, nodep, "lazy")
+                if not gated:
+                    callers = [(q2, c2) for q2, f2 in ev.functions() for c2 in own_nodes(f2)
+                               if isinstance(c2, ast.Call) and isinstance(c2.func, ast.Name) and c2.func.id == f.name and q2 != q]
+                    gated = bool(callers) and all(len(c2.args) >= 2 and isinstance(c2.args[1], ast.Name) and H.flag_gated(ev, ev.func(q2), c2, c2.args[1].id, "lazy") for q2, c2 in callers)
+                rep.ob("C08.t-pushed-evaluation-gated-by-lazy", ev, q, c, gated,
+                       "only where the node is lazy" if gated else
+                       "%s is evaluated once per solution of the sibling operand, with that solution's bindings pushed in, whether or not the operand is a LIMIT / OFFSET / DISTINCT / grouped sub-select: "
+                       "the slice (the groups) are taken of the restricted sequence" % norm(c.args[1]), node=c)
+        an = alg.func("analyse")
+        an_n = an.args.args[0].arg
+        flagged_kinds: set[str] = set()
+        for ks, br in H.name_branches(an, an_n, alg):
+            if any(isinstance(s_, ast.Assign) and any(isinstance(t, ast.Subscript) and norm(t.value) == an_n and isinstance(t.slice, ast.Constant) and t.slice.value == "lazy" for t in s_.targets)
+                   for s_ in br.body):
+                flagged_kinds |= ks
+        if not flagged_kinds:
+            raise AnalysisError("algebra.analyse: no n[\"lazy\"] = ... under a test of n.name")
+        for k, fname in sorted(table.items()):
+            f = ev.defs.get(fname)
+            if not isinstance(f, ast.FunctionDef) or node_param(f) is None:
                 continue
-            # ... inside a loop over the solutions of another operand of the same node
-            loops = [l for l in enclosing(ev, c, (ast.For,), f) if any(operand_call(x, nodep) and x is not c for x in ast.walk(l.iter))]
-            if not loops:
+            if any(isinstance(a, ast.Attribute) and a.attr == "lazy" and norm(a.value) == node_param(f) for a in own_nodes(f)):
+                ok = k in flagged_kinds
+                rep.ob("C08.t-pushed-evaluation-gated-by-lazy", alg, "analyse", "%s reads %s.lazy of a %s node" % (fname, node_param(f), k), ok,
+                       "analyse() stores it" if ok else "analyse() stores n[\"lazy\"] only for %s: on a %s node the flag reads as None, which %s takes for one of its two cases whatever the operands are" % (
+                           sorted(flagged_kinds), k, fname), node=an)
+
+    _layer(rep, _sec_t, repo)
+
+    def _sec_u(repo: Repo, rep: Report) -> None:
+        # ------------------------------------------------------------------ (u)  F275
+        rep.rule("C08.u-sequence-operators-not-lazy",
+                 "algebra.analyse answers False (`cannot be evaluated with outer bindings pushed in`) for every node kind whose evaluator is not a per-solution map or filter of its operand: it "
+                 "slices the operand positionally (islice), or inside its loop over the operand's solutions it tests the solution against, or feeds it to, an object that lives across iterations "
+                 "(a `seen` set, the aggregators of the groups); collecting the solutions in a list is no such state. With ?k pushed into `{ SELECT ?k (COUNT(?x) AS ?n) { ... } GROUP BY ?k }` an "
+                 "inner solution that leaves ?k unbound is compatible with the pushed value and is counted into that value's group, and the group of the unbound key is lost", floor=3)
+        table = evaluator_table()
+        an = alg.func("analyse")
+        an_n = an.args.args[0].arg
+        nonlazy: set[str] = set()
+        for ks, br in H.name_branches(an, an_n, alg):
+            rets = [r for s_ in br.body for r in ast.walk(s_) if isinstance(r, ast.Return)]
+            if rets and all(isinstance(r.value, ast.Constant) and r.value.value is False for r in rets):
+                nonlazy |= ks
+        if len(nonlazy) < 2:
+            raise AnalysisError("algebra.analyse: branches answering False not recognised (%s)" % sorted(nonlazy))
+        # REDUCED may keep any number of copies between one and all of them (SPARQL 18.5 Reduced): evaluated under pushed bindings it only answers with another permitted multiplicity
+        MULTIPLICITY_FREE = {"Reduced"}
+
+        def sequence_state(f) -> str | None:
+            nodep, ctxp = node_param(f), f.args.args[0].arg
+            opnames = {t.id for a in own_nodes(f) if isinstance(a, ast.Assign) and operand_call(a.value, nodep) for t in a.targets if isinstance(t, ast.Name)}
+
+            def is_operand(e):
+                return operand_call(e, nodep) or (isinstance(e, ast.Name) and e.id in opnames)
+
+            for c in own_nodes(f):
+                if isinstance(c, ast.Call) and norm(c.func).split(".")[-1] == "islice" and c.args and is_operand(c.args[0]):
+                    return "takes a positional slice of the operand's solutions (%s)" % norm(c)[:60]
+            for lp in own_nodes(f):
+                if not (isinstance(lp, ast.For) and is_operand(lp.iter) and isinstance(lp.target, ast.Name)):
+                    continue
+                row = lp.target.id
+                inner = H.stored_names(lp.body) | {row, ctxp} | {l.target.id for l in enclosing(ev, lp, (ast.For,), f) if isinstance(l.target, ast.Name)}
+                for n in [x for s_ in lp.body for x in ast.walk(s_)]:
+                    if isinstance(n, ast.Compare) and len(n.ops) == 1 and isinstance(n.ops[0], (ast.In, ast.NotIn)) and isinstance(n.left, ast.Name) and n.left.id == row:
+                        r = H.root_name(n.comparators[0])
+                        if r is not None and r not in inner:
+                            return "tests each solution against `%s`, which lives across the solutions (%s)" % (r, norm(n))
+                    if isinstance(n, ast.Call) and isinstance(n.func, ast.Attribute) and any(isinstance(x, ast.Name) and x.id == row for a in n.args for x in ast.walk(a)):
+                        r = H.root_name(n.func.value)
+                        if r is None or r in inner:
+                            continue
+                        vals = H.local_values(f, r)
+                        is_list = isinstance(n.func.value, ast.Name) and bool(vals) and all(isinstance(v, ast.List) or (isinstance(v, ast.Call) and norm(v.func) == "list") for v in vals)
+                        if n.func.attr in ("append", "extend") and is_list:
+                            continue  # the solutions are only collected, in order
+                        return "feeds each solution to `%s`, which lives across the solutions (%s)" % (r, norm(n)[:60])
+            return None
+
+        for k, fname in sorted(table.items()):
+            f = ev.defs.get(fname)
+            if not isinstance(f, ast.FunctionDef) or node_param(f) is None:
                 continue
-            gated = H.flag_gated(ev, f, c, nodep, "lazy")
-            if not gated:
-                callers = [(q2, c2) for q2, f2 in ev.functions() for c2 in own_nodes(f2)
-                           if isinstance(c2, ast.Call) and isinstance(c2.func, ast.Name) and c2.func.id == f.name and q2 != q]
-                gated = bool(callers) and all(len(c2.args) >= 2 and isinstance(c2.args[1], ast.Name) and H.flag_gated(ev, ev.func(q2), c2, c2.args[1].id, "lazy") for q2, c2 in callers)
-            rep.ob("C08.t-pushed-evaluation-gated-by-lazy", ev, q, c, gated,
-                   "only where the node is lazy" if gated else
-                   "%s is evaluated once per solution of the sibling operand, with that solution's bindings pushed in, whether or not the operand is a LIMIT / OFFSET / DISTINCT / grouped sub-select: "
-                   "the slice (the groups) are taken of the restricted sequence" % norm(c.args[1]), node=c)
-    an = alg.func("analyse")
-    an_n = an.args.args[0].arg
-    flagged_kinds: set[str] = set()
-    for ks, br in H.name_branches(an, an_n, alg):
-        if any(isinstance(s_, ast.Assign) and any(isinstance(t, ast.Subscript) and norm(t.value) == an_n and isinstance(t.slice, ast.Constant) and t.slice.value == "lazy" for t in s_.targets)
-               for s_ in br.body):
-            flagged_kinds |= ks
-    if not flagged_kinds:
-        raise AnalysisError("algebra.analyse: no n[\"lazy\"] = ... under a test of n.name")
-    for k, fname in sorted(table.items()):
-        f = ev.defs.get(fname)
-        if not isinstance(f, ast.FunctionDef) or node_param(f) is None:
-            continue
-        if any(isinstance(a, ast.Attribute) and a.attr == "lazy" and norm(a.value) == node_param(f) for a in own_nodes(f)):
-            ok = k in flagged_kinds
-            rep.ob("C08.t-pushed-evaluation-gated-by-lazy", alg, "analyse", "%s reads %s.lazy of a %s node" % (fname, node_param(f), k), ok,
-                   "analyse() stores it" if ok else "analyse() stores n[\"lazy\"] only for %s: on a %s node the flag reads as None, which %s takes for one of its two cases whatever the operands are" % (
-                       sorted(flagged_kinds), k, fname), node=an)
-
-    # ------------------------------------------------------------------ (u)  F275
-    rep.rule("C08.u-sequence-operators-not-lazy",
-             "algebra.analyse answers False (`cannot be evaluated with outer bindings pushed in`) for every node kind whose evaluator is not a per-solution map or filter of its operand: it "
-             "slices the operand positionally (islice), or inside its loop over the operand's solutions it tests the solution against, or feeds it to, an object that lives across iterations "
-             "(a `seen` set, the aggregators of the groups); collecting the solutions in a list is no such state. With ?k pushed into `{ SELECT ?k (COUNT(?x) AS ?n) { ... } GROUP BY ?k }` an "
-             "inner solution that leaves ?k unbound is compatible with the pushed value and is counted into that value's group, and the group of the unbound key is lost", floor=3)
-    nonlazy: set[str] = set()
-    for ks, br in H.name_branches(an, an_n, alg):
-        rets = [r for s_ in br.body for r in ast.walk(s_) if isinstance(r, ast.Return)]
-        if rets and all(isinstance(r.value, ast.Constant) and r.value.value is False for r in rets):
-            nonlazy |= ks
-    if len(nonlazy) < 2:
-        raise AnalysisError("algebra.analyse: branches answering False not recognised (%s)" % sorted(nonlazy))
-    # REDUCED may keep any number of copies between one and all of them (SPARQL 18.5 Reduced): evaluated under pushed bindings it only answers with another permitted multiplicity
-    MULTIPLICITY_FREE = {"Reduced"}
-
-    def sequence_state(f) -> str | None:
-        nodep, ctxp = node_param(f), f.args.args[0].arg
-        opnames = {t.id for a in own_nodes(f) if isinstance(a, ast.Assign) and operand_call(a.value, nodep) for t in a.targets if isinstance(t, ast.Name)}
-
-        def is_operand(e):
-            return operand_call(e, nodep) or (isinstance(e, ast.Name) and e.id in opnames)
-
-        for c in own_nodes(f):
-            if isinstance(c, ast.Call) and norm(c.func).split(".")[-1] == "islice" and c.args and is_operand(c.args[0]):
-                return "takes a positional slice of the operand's solutions (%s)" % norm(c)[:60]
-        for lp in own_nodes(f):
-            if not (isinstance(lp, ast.For) and is_operand(lp.iter) and isinstance(lp.target, ast.Name)):
+            why = sequence_state(f)
+            if why is None:
                 continue
-            row = lp.target.id
-            inner = H.stored_names(lp.body) | {row, ctxp} | {l.target.id for l in enclosing(ev, lp, (ast.For,), f) if isinstance(l.target, ast.Name)}
-            for n in [x for s_ in lp.body for x in ast.walk(s_)]:
-                if isinstance(n, ast.Compare) and len(n.ops) == 1 and isinstance(n.ops[0], (ast.In, ast.NotIn)) and isinstance(n.left, ast.Name) and n.left.id == row:
-                    r = H.root_name(n.comparators[0])
-                    if r is not None and r not in inner:
-                        return "tests each solution against `%s`, which lives across the solutions (%s)" % (r, norm(n))
-                if isinstance(n, ast.Call) and isinstance(n.func, ast.Attribute) and any(isinstance(x, ast.Name) and x.id == row for a in n.args for x in ast.walk(a)):
-                    r = H.root_name(n.func.value)
-                    if r is None or r in inner:
-                        continue
-                    vals = H.local_values(f, r)
-                    is_list = isinstance(n.func.value, ast.Name) and bool(vals) and all(isinstance(v, ast.List) or (isinstance(v, ast.Call) and norm(v.func) == "list") for v in vals)
-                    if n.func.attr in ("append", "extend") and is_list:
-                        continue  # the solutions are only collected, in order
-                    return "feeds each solution to `%s`, which lives across the solutions (%s)" % (r, norm(n)[:60])
-        return None
-
-    for k, fname in sorted(table.items()):
-        f = ev.defs.get(fname)
-        if not isinstance(f, ast.FunctionDef) or node_param(f) is None:
-            continue
-        why = sequence_state(f)
-        if why is None:
-            continue
-        if k in MULTIPLICITY_FREE:
-            rep.ob("C08.u-sequence-operators-not-lazy", alg, "analyse", "%s (%s)" % (k, fname), True, "any multiplicity is a correct answer of REDUCED", node=an, vacuous=True)
-            continue
-        ok = k in nonlazy
-        rep.ob("C08.u-sequence-operators-not-lazy", alg, "analyse", "%s: %s %s" % (k, fname, why), ok,
-               "analyse() answers False" if ok else "%s %s, so its result for a restricted input is not the restriction of its result - but analyse() answers False only for %s: a join with a "
-               "%s sub-select is evaluated lazily, with the outer solution pushed into it" % (fname, why, sorted(nonlazy), k), node=an)
-
-    # ------------------------------------------------------------------ (v)  F276
-    rep.rule("C08.v-group-keys-bound-without-select-clause",
-             "algebra.translateAggregates returns the list of (aggregate variable, variable) pairs that are bound again after grouping; a pair for each variable grouped by (a loop over values "
-             "derived from <Group>.expr) is added on a path that does not require q.projection: CONSTRUCT, ASK and DESCRIBE have no SELECT clause. Otherwise `CONSTRUCT { ?t a :Used } WHERE { ?x a ?t } "
-             "GROUP BY ?t` gets one empty solution per group and constructs nothing", floor=1)
-    ta = alg.func("translateAggregates")
-    if len(ta.args.args) < 2:
-        raise AnalysisError("translateAggregates: signature not recognised")
-    qp, mp = ta.args.args[0].arg, ta.args.args[1].arg
-    rets = [r for r in own_nodes(ta) if isinstance(r, ast.Return) and isinstance(r.value, ast.Tuple) and len(r.value.elts) == 2 and isinstance(r.value.elts[1], ast.Name)]
-    if not rets:
-        raise AnalysisError("translateAggregates: `return <AggregateJoin>, <pairs>` not found")
-    pairs = rets[0].value.elts[1].id
-    adds = [c for c in own_nodes(ta) if isinstance(c, ast.Call) and isinstance(c.func, ast.Attribute) and c.func.attr == "append" and norm(c.func.value) == pairs]
-    if not adds:
-        raise AnalysisError("translateAggregates: nothing is appended to the returned pairs")
-
-    def needs_projection(site) -> bool:
-        child = site
-        for p_ in alg.parents(site):
-            if isinstance(p_, ast.If) and child in p_.body:
-                conj = p_.test.values if isinstance(p_.test, ast.BoolOp) and isinstance(p_.test.op, ast.And) else [p_.test]
-                if any(norm(t) == qp + ".projection" for t in conj):
-                    return True
-            if p_ is ta:
-                break
-            child = p_
-        return False
-
-    def over_group_keys(site) -> bool:
-        for l in enclosing(alg, site, (ast.For,), ta):
-            for x in H.expand_all(ta, l.iter, {qp, mp}):
-                if any(isinstance(a, ast.Attribute) and a.attr == "expr" and norm(a.value) == mp for a in ast.walk(x)):
-                    return True
-        return False
-
-    free = [c for c in adds if over_group_keys(c) and not needs_projection(c)]
-    rep.ob("C08.v-group-keys-bound-without-select-clause", alg, "translateAggregates", "%s.append(...) for the variables of %s.expr" % (pairs, mp), bool(free),
-           "also without a SELECT clause" if free else "the variables grouped by are bound again after grouping only under `if %s.projection`: a CONSTRUCT / ASK / DESCRIBE query with GROUP BY "
-           "gets solutions that bind nothing" % qp, node=adds[-1])
-
-    # ------------------------------------------------------------------ (w)  F277
-    rep.rule("C08.w-select-aliases-not-sampled",
-             "algebra.translateAggregates: the SAMPLE rewrite (`traverse(X, _sample)`) of the clauses that are evaluated after the (expr AS ?var) of the SELECT clause have been bound - the SELECT "
-             "expressions themselves and ORDER BY - is told to keep those variables (the `keep` collection of _sample receives .evar values): they are bound after grouping, not in the group. "
-             "`SELECT (SUM(?v) AS ?s) (COUNT(?v) AS ?n) (?s / ?n AS ?avg)` otherwise computes SAMPLE(?s) / SAMPLE(?n) over the group, where neither is bound, and ?avg stays unbound", floor=2)
-    seen_clauses = set()
-    for c in own_nodes(ta):
-        if not (isinstance(c, ast.Call) and norm(c.func) == "traverse" and len(c.args) >= 2):
-            continue
-        fn_ = c.args[1]
-        part = fn_ if isinstance(fn_, ast.Call) and norm(fn_.func).split(".")[-1] == "partial" else None
-        target = part.args[0] if part is not None and part.args else fn_
-        if not (isinstance(target, ast.Name) and target.id == "_sample"):
-            continue
-        x = c.args[0]
-        clause = None
-        if isinstance(x, ast.Attribute) and norm(x.value) == qp and x.attr in ("orderby", "having"):
-            clause = x.attr
-        elif isinstance(x, ast.Attribute) and x.attr == "expr" and isinstance(x.value, ast.Name) and any(
-                isinstance(l.target, ast.Name) and l.target.id == x.value.id and norm(l.iter) == qp + ".projection" for l in enclosing(alg, c, (ast.For,), ta)):
-            clause = "projection"
-        if clause is None:
-            raise AnalysisError("translateAggregates: _sample rewrite of %s not modelled" % norm(x))
-        seen_clauses.add(clause)
-        if clause == "having":
-            continue  # HAVING is evaluated before the SELECT expressions are
-        keep = [k.value for k in part.keywords if k.arg == "keep"] if part is not None else []
-        ok = False
-        if keep:
-            srcs = list(H.expand_locals(ta, keep[0], {qp, mp}))
-            if isinstance(keep[0], ast.Name):
-                srcs += [a for m_ in own_nodes(ta) if isinstance(m_, ast.Call) and isinstance(m_.func, ast.Attribute) and m_.func.attr in ("add", "update", "append")
-                         and norm(m_.func.value) == keep[0].id for a in m_.args]
-            ok = any(isinstance(a, ast.Attribute) and a.attr == "evar" for s_ in srcs for a in ast.walk(s_))
-        rep.ob("C08.w-select-aliases-not-sampled", alg, "translateAggregates", "_sample rewrite of the %s clause" % clause, ok,
-               "keeps the (expr AS ?var) variables" if ok else "%s is rewritten with _sample without a `keep` collection holding the variables of the (expr AS ?var) of the SELECT clause: such a "
-               "variable used in the %s is replaced by SAMPLE(?var) over the group, where it is not bound" % (norm(x), "SELECT clause after its definition" if clause == "projection" else "ORDER BY"), node=c)
-    if not {"projection", "orderby"} <= seen_clauses:
-        raise AnalysisError("translateAggregates: _sample rewrites found only for %s" % sorted(seen_clauses))
-
-    # ------------------------------------------------------------------ (x)  F278
-    rep.rule("C08.x-sort-key-separates-incomparable-literals",
-             "Literal.__gt__ answers NotImplemented for two literals under a test of their (coalesced) datatypes being different (rdflib.DAWG_LITERAL_COLLATION); a sort key that contains the "
-             "literal itself is a total order only if an earlier component of the key is computed from the datatype (not merely from its membership in the numeric types), so that two literals "
-             "reaching the comparison have the same one. Otherwise `ORDER BY ?v` over \"b\", \"2020-01-01\"^^xsd:date, \"a\" leaves the rows in store order, and MIN/MAX depend on it", floor=1)
-    gt = term.func("Literal.__gt__")
-    other = gt.args.args[1].arg
-    refuses = False
-    other_is_literal = H.instance_test(other, "Literal")
-    gt_params = {a.arg for a in gt.args.args}
-    # a `return NotImplemented` that is reached only with `other` known to be a Literal (inside `if isinstance(other, Literal)`, or after the guard clause that
-    # leaves for everything else), on the side of a comparison of the two datatypes where they differ
-    for r in own_nodes(gt):
-        if not (isinstance(r, ast.Return) and isinstance(r.value, ast.Name) and r.value.id == "NotImplemented" and H.established(term, gt, r, other_is_literal)):
-            continue
-        child = r
-        for g_ in term.parents(r):
-            if g_ is gt:
-                break
-            if isinstance(g_, ast.If) and isinstance(g_.test, ast.Compare) and len(g_.test.ops) == 1 and (
-                    (isinstance(g_.test.ops[0], ast.NotEq) and child in g_.body) or (isinstance(g_.test.ops[0], ast.Eq) and child in g_.orelse)):
-                srcs = [y for side in (g_.test.left, g_.test.comparators[0]) for y in H.expand_locals(gt, side, gt_params)]
-                if any(isinstance(a, ast.Attribute) and a.attr == "datatype" for y in srcs for a in ast.walk(y)):
-                    refuses = True
-            child = g_
-    if not refuses:
-        raise AnalysisError("Literal.__gt__ no longer answers NotImplemented for literals of different datatypes: rule C08.x must be revisited")
-    term_keys = H.term_key_functions(repo, ev, ag, H.sort_key_sites(repo, (ev, ag)))
-    if not term_keys:
-        raise AnalysisError("no sort key function found")
-    for km, kfn, p0, lit_returns in term_keys:
-        params = {a.arg for a in kfn.args.args}
-        for rt in lit_returns:
-            if rt.value is None:
+            if k in MULTIPLICITY_FREE:
+                rep.ob("C08.u-sequence-operators-not-lazy", alg, "analyse", "%s (%s)" % (k, fname), True, "any multiplicity is a correct answer of REDUCED", node=an, vacuous=True)
                 continue
-            elts = rt.value.elts if isinstance(rt.value, ast.Tuple) else [rt.value]
-            idx = next((i for i, e in enumerate(elts) if isinstance(e, ast.Name) and e.id == p0), None)
-            if idx is None:
-                continue  # the literal itself is not part of the key
+            ok = k in nonlazy
+            rep.ob("C08.u-sequence-operators-not-lazy", alg, "analyse", "%s: %s %s" % (k, fname, why), ok,
+                   "analyse() answers False" if ok else "%s %s, so its result for a restricted input is not the restriction of its result - but analyse() answers False only for %s: a join with a "
+                   "%s sub-select is evaluated lazily, with the outer solution pushed into it" % (fname, why, sorted(nonlazy), k), node=an)
+
+    _layer(rep, _sec_u, repo)
+
+    def aggregates_translator():
+        ta = alg.func("translateAggregates")
+        if len(ta.args.args) < 2:
+            raise AnalysisError("translateAggregates: signature not recognised")
+        return ta, ta.args.args[0].arg, ta.args.args[1].arg
+
+    def _sec_v(repo: Repo, rep: Report) -> None:
+        # ------------------------------------------------------------------ (v)  F276
+        rep.rule("C08.v-group-keys-bound-without-select-clause",
+                 "algebra.translateAggregates returns the list of (aggregate variable, variable) pairs that are bound again after grouping; a pair for each variable grouped by (a loop over values "
+                 "derived from <Group>.expr) is added - by an append in the function or in a def nested in it that is called there - on a path that does not require q.projection: CONSTRUCT, ASK and DESCRIBE have no SELECT clause. Otherwise `CONSTRUCT { ?t a :Used } WHERE { ?x a ?t } "
+                 "GROUP BY ?t` gets one empty solution per group and constructs nothing", floor=1)
+        ta, qp, mp = aggregates_translator()
+        rets = [r for r in own_nodes(ta) if isinstance(r, ast.Return) and isinstance(r.value, ast.Tuple) and len(r.value.elts) == 2 and isinstance(r.value.elts[1], ast.Name)]
+        if not rets:
+            raise AnalysisError("translateAggregates: `return <AggregateJoin>, <pairs>` not found")
+        pairs = rets[0].value.elts[1].id
+        # where a pair is added: `<pairs>.append(..)` in the function itself, or the call of a def nested in it that does the append on the captured list
+        # (each as (the statement-level site in translateAggregates, the append itself))
+        adds = H.effect_sites(ta, lambda c: isinstance(c, ast.Call) and isinstance(c.func, ast.Attribute) and c.func.attr == "append" and norm(c.func.value) == pairs, {pairs})
+        if not adds:
+            raise AnalysisError("translateAggregates: nothing is appended to the returned pairs")
+
+        def needs_projection(site) -> bool:
+            child = site
+            for p_ in alg.parents(site):
+                if isinstance(p_, ast.If) and child in p_.body:
+                    conj = p_.test.values if isinstance(p_.test, ast.BoolOp) and isinstance(p_.test.op, ast.And) else [p_.test]
+                    if any(norm(t) == qp + ".projection" for t in conj):
+                        return True
+                if p_ is ta:
+                    break
+                child = p_
+            return False
+
+        def over_group_keys(site) -> bool:
+            for l in enclosing(alg, site, (ast.For,), ta):
+                for x in H.expand_all(ta, l.iter, {qp, mp}):
+                    if any(isinstance(a, ast.Attribute) and a.attr == "expr" and norm(a.value) == mp for a in ast.walk(x)):
+                        return True
+            return False
+
+        free = [c for c, inner in adds if over_group_keys(c) and not needs_projection(c) and not needs_projection(inner)]
+        rep.ob("C08.v-group-keys-bound-without-select-clause", alg, "translateAggregates", "%s.append(...) for the variables of %s.expr" % (pairs, mp), bool(free),
+               "also without a SELECT clause" if free else "the variables grouped by are bound again after grouping only under `if %s.projection`: a CONSTRUCT / ASK / DESCRIBE query with GROUP BY "
+               "gets solutions that bind nothing" % qp, node=adds[-1][0])
+
+    _layer(rep, _sec_v, repo)
+
+    def _sec_w(repo: Repo, rep: Report) -> None:
+        # ------------------------------------------------------------------ (w)  F277
+        rep.rule("C08.w-select-aliases-not-sampled",
+                 "algebra.translateAggregates: the SAMPLE rewrite (`traverse(X, _sample)`) of the clauses that are evaluated after the (expr AS ?var) of the SELECT clause have been bound - the SELECT "
+                 "expressions themselves and ORDER BY - is told to keep those variables (the `keep` collection of _sample receives .evar values): they are bound after grouping, not in the group. "
+                 "`SELECT (SUM(?v) AS ?s) (COUNT(?v) AS ?n) (?s / ?n AS ?avg)` otherwise computes SAMPLE(?s) / SAMPLE(?n) over the group, where neither is bound, and ?avg stays unbound", floor=2)
+        ta, qp, mp = aggregates_translator()
+        seen_clauses = set()
+        for c in own_nodes(ta):
+            if not (isinstance(c, ast.Call) and norm(c.func) == "traverse" and len(c.args) >= 2):
+                continue
+            fn_ = c.args[1]
+            part = fn_ if isinstance(fn_, ast.Call) and norm(fn_.func).split(".")[-1] == "partial" else None
+            target = part.args[0] if part is not None and part.args else fn_
+            if not (isinstance(target, ast.Name) and target.id == "_sample"):
+                continue
+            x = c.args[0]
+            clause = None
+            if isinstance(x, ast.Attribute) and norm(x.value) == qp and x.attr in ("orderby", "having"):
+                clause = x.attr
+            elif isinstance(x, ast.Attribute) and x.attr == "expr" and isinstance(x.value, ast.Name) and any(
+                    isinstance(l.target, ast.Name) and l.target.id == x.value.id and norm(l.iter) == qp + ".projection" for l in enclosing(alg, c, (ast.For,), ta)):
+                clause = "projection"
+            if clause is None:
+                raise AnalysisError("translateAggregates: _sample rewrite of %s not modelled" % norm(x))
+            seen_clauses.add(clause)
+            if clause == "having":
+                continue  # HAVING is evaluated before the SELECT expressions are
+            keep = [k.value for k in part.keywords if k.arg == "keep"] if part is not None else []
             ok = False
-            for e in elts[:idx]:
-                for x in H.expand_locals(kfn, e, params):
-                    for n, ps in H.walk_with_parents(x):
-                        if isinstance(n, ast.Attribute) and n.attr == "datatype" and norm(n.value) == p0 and not any(isinstance(p_, ast.Compare) for p_ in ps):
-                            ok = True
-            rep.ob("C08.x-sort-key-separates-incomparable-literals", km, kfn.name, "key of a Literal: %s" % norm(rt.value), ok,
-                   "the datatype comes before the literal" if ok else "no component before the literal is computed from its datatype: two literals of different datatypes are compared with "
-                   "Literal.__gt__/__lt__, which refuse (NotImplemented / False both ways) under DAWG_LITERAL_COLLATION - the key is not an order and sorted() leaves such rows where they were", node=rt)
+            if keep:
+                srcs = list(H.expand_locals(ta, keep[0], {qp, mp}))
+                if isinstance(keep[0], ast.Name):
+                    srcs += [a for m_ in own_nodes(ta) if isinstance(m_, ast.Call) and isinstance(m_.func, ast.Attribute) and m_.func.attr in ("add", "update", "append")
+                             and norm(m_.func.value) == keep[0].id for a in m_.args]
+                ok = any(isinstance(a, ast.Attribute) and a.attr == "evar" for s_ in srcs for a in ast.walk(s_))
+            rep.ob("C08.w-select-aliases-not-sampled", alg, "translateAggregates", "_sample rewrite of the %s clause" % clause, ok,
+                   "keeps the (expr AS ?var) variables" if ok else "%s is rewritten with _sample without a `keep` collection holding the variables of the (expr AS ?var) of the SELECT clause: such a "
+                   "variable used in the %s is replaced by SAMPLE(?var) over the group, where it is not bound" % (norm(x), "SELECT clause after its definition" if clause == "projection" else "ORDER BY"), node=c)
+        if not {"projection", "orderby"} <= seen_clauses:
+            raise AnalysisError("translateAggregates: _sample rewrites found only for %s" % sorted(seen_clauses))
+
+    _layer(rep, _sec_w, repo)
+
+    def _sec_x(repo: Repo, rep: Report) -> None:
+        # ------------------------------------------------------------------ (x)  F278
+        rep.rule("C08.x-sort-key-separates-incomparable-literals",
+                 "Literal.__gt__ answers NotImplemented for two literals under a test of their (coalesced) datatypes being different (rdflib.DAWG_LITERAL_COLLATION); a sort key that contains the "
+                 "literal itself is a total order only if an earlier component of the key is computed from the datatype (not merely from its membership in the numeric types), so that two literals "
+                 "reaching the comparison have the same one. Otherwise `ORDER BY ?v` over \"b\", \"2020-01-01\"^^xsd:date, \"a\" leaves the rows in store order, and MIN/MAX depend on it", floor=1)
+        gt = term.func("Literal.__gt__")
+        other = gt.args.args[1].arg
+        refuses = False
+        other_is_literal = H.instance_test(other, "Literal")
+        gt_params = {a.arg for a in gt.args.args}
+        # a `return NotImplemented` that is reached only with `other` known to be a Literal (inside `if isinstance(other, Literal)`, or after the guard clause that
+        # leaves for everything else), on the side of a comparison of the two datatypes where they differ
+        for r in own_nodes(gt):
+            if not (isinstance(r, ast.Return) and isinstance(r.value, ast.Name) and r.value.id == "NotImplemented" and H.established(term, gt, r, other_is_literal)):
+                continue
+            child = r
+            for g_ in term.parents(r):
+                if g_ is gt:
+                    break
+                if isinstance(g_, ast.If) and isinstance(g_.test, ast.Compare) and len(g_.test.ops) == 1 and (
+                        (isinstance(g_.test.ops[0], ast.NotEq) and child in g_.body) or (isinstance(g_.test.ops[0], ast.Eq) and child in g_.orelse)):
+                    srcs = [y for side in (g_.test.left, g_.test.comparators[0]) for y in H.expand_locals(gt, side, gt_params)]
+                    if any(isinstance(a, ast.Attribute) and a.attr == "datatype" for y in srcs for a in ast.walk(y)):
+                        refuses = True
+                child = g_
+        if not refuses:
+            raise AnalysisError("Literal.__gt__ no longer answers NotImplemented for literals of different datatypes: rule C08.x must be revisited")
+        term_keys = H.term_key_functions(repo, ev, ag, H.sort_key_sites(repo, (ev, ag)))
+        if not term_keys:
+            raise AnalysisError("no sort key function found")
+        for km, kfn, p0, lit_returns in term_keys:
+            params = {a.arg for a in kfn.args.args}
+            for rt in lit_returns:
+                if rt.value is None:
+                    continue
+                elts = rt.value.elts if isinstance(rt.value, ast.Tuple) else [rt.value]
+                idx = next((i for i, e in enumerate(elts) if isinstance(e, ast.Name) and e.id == p0), None)
+                if idx is None:
+                    continue  # the literal itself is not part of the key
+                ok = False
+                for e in elts[:idx]:
+                    for x in H.expand_locals(kfn, e, params):
+                        for n, ps in H.walk_with_parents(x):
+                            if isinstance(n, ast.Attribute) and n.attr == "datatype" and norm(n.value) == p0 and not any(isinstance(p_, ast.Compare) for p_ in ps):
+                                ok = True
+                rep.ob("C08.x-sort-key-separates-incomparable-literals", km, kfn.name, "key of a Literal: %s" % norm(rt.value), ok,
+                       "the datatype comes before the literal" if ok else "no component before the literal is computed from its datatype: two literals of different datatypes are compared with "
+                       "Literal.__gt__/__lt__, which refuse (NotImplemented / False both ways) under DAWG_LITERAL_COLLATION - the key is not an order and sorted() leaves such rows where they were", node=rt)
+
+    _layer(rep, _sec_x, repo)
 
     # ------------------------------------------------------------------ (y) (z)  F279 F280
-    rep.rule("C08.y-numeric-aggregate-arithmetic-overflow",
-             "an accumulator whose update() converts with operators.numeric() adds Python numbers of mixed kinds (type_safe_numbers: float + int): the addition lies in a try whose handlers "
-             "catch OverflowError (an xsd:integer beyond the double range cannot be added to a float) and record it on self like numeric()'s type error, so that the aggregate is an error "
-             "(variable unbound). `SELECT (SUM(?v) AS ?s)` over 1.5e0 and 10**400 otherwise aborts the whole query with OverflowError", floor=2)
-    rep.rule("C08.z-aggregate-result-datatype",
-             "an accumulator whose update() tracks the promoted datatype of its operands in self.datatype builds the literal it answers with `datatype=self.datatype` wherever more than one "
-             "datatype is possible for the same Python value - unconditionally, or in the branch of a test of self.datatype against several datatypes: Literal(<float>) alone is always "
-             "xsd:double, so AVG over \"1.5\"^^xsd:float, \"2.5\"^^xsd:float answers an xsd:double where SUM answers an xsd:float", floor=2)
-    concrete: list[str] = []
-    for st in ag.cls("Aggregator").body:
-        if isinstance(st, ast.Assign) and norm(st.targets[0]) == "accumulator_classes" and isinstance(st.value, ast.Dict):
-            concrete = sorted({norm(v) for v in st.value.values})
-    if len(concrete) < 7:
-        raise AnalysisError("Aggregator.accumulator_classes not found")
+    def concrete_accumulators() -> list[str]:
+        concrete: list[str] = []
+        for st in ag.cls("Aggregator").body:
+            if isinstance(st, ast.Assign) and norm(st.targets[0]) == "accumulator_classes" and isinstance(st.value, ast.Dict):
+                concrete = sorted({norm(v) for v in st.value.values})
+        if len(concrete) < 7:
+            raise AnalysisError("Aggregator.accumulator_classes not found")
+        return concrete
 
     def resolved(cname: str, meth: str):
         for b in typed.mro(AG + cname):
@@ -1137,169 +1254,205 @@ def run(repo: Repo, rep: Report) -> None:  # noqa: F811
         return None, None
 
     OVERFLOW = {"OverflowError", "ArithmeticError", "Exception", "BaseException"}
-    n_num = n_dt = 0
-    for cname in concrete:
-        owner, upd = resolved(cname, "update")
-        if upd is None:
-            raise AnalysisError("%s: update() not resolved" % cname)
-        selfn = upd.args.args[0].arg
-        numcalls = [c for c in own_nodes(upd) if isinstance(c, ast.Call) and isinstance(c.func, ast.Name) and (H.resolve_function(repo, ag, c.func.id) or (None, None))[0] is opm
-                    and H.resolve_function(repo, ag, c.func.id)[1].name == "numeric"]
-        if numcalls:
-            n_num += 1
-            numnames = {t.id for a in own_nodes(upd) if isinstance(a, ast.Assign) and a.value in numcalls for t in a.targets if isinstance(t, ast.Name)}
 
-            def uses_number(e) -> bool:
-                return any(x in numcalls or (isinstance(x, ast.Name) and x.id in numnames) for x in ast.walk(e))
+    def _sec_y(repo: Repo, rep: Report) -> None:
+        rep.rule("C08.y-numeric-aggregate-arithmetic-overflow",
+                 "an accumulator whose update() converts with operators.numeric() adds Python numbers of mixed kinds (type_safe_numbers: float + int): the addition lies in a try whose handlers "
+                 "catch OverflowError (an xsd:integer beyond the double range cannot be added to a float) and record it on self like numeric()'s type error, so that the aggregate is an error "
+                 "(variable unbound). `SELECT (SUM(?v) AS ?s)` over 1.5e0 and 10**400 otherwise aborts the whole query with OverflowError", floor=2)
+        n_num = 0
+        for cname in concrete_accumulators():
+            owner, upd = resolved(cname, "update")
+            if upd is None:
+                raise AnalysisError("%s: update() not resolved" % cname)
+            selfn = upd.args.args[0].arg
+            numcalls = [c for c in own_nodes(upd) if isinstance(c, ast.Call) and isinstance(c.func, ast.Name) and (H.resolve_function(repo, ag, c.func.id) or (None, None))[0] is opm
+                        and H.resolve_function(repo, ag, c.func.id)[1].name == "numeric"]
+            if numcalls:
+                n_num += 1
+                numnames = {t.id for a in own_nodes(upd) if isinstance(a, ast.Assign) and a.value in numcalls for t in a.targets if isinstance(t, ast.Name)}
 
-            arith = [n for n in own_nodes(upd) if uses_number(n) and (
-                (isinstance(n, ast.Call) and isinstance(n.func, ast.Name) and n.func.id == "sum") or
-                (isinstance(n, ast.BinOp) and isinstance(n.op, (ast.Add, ast.Sub, ast.Mult))) or
-                (isinstance(n, ast.AugAssign) and isinstance(n.op, (ast.Add, ast.Sub, ast.Mult))))]
-            if not arith:
-                raise AnalysisError("%s.update: the addition of the converted number not found" % owner)
-            for a in arith:
-                tries = [t for t in enclosing(ag, a, (ast.Try,), upd) if any(a in ast.walk(s_) for s_ in t.body)]
-                h = next((h for t in tries for h in t.handlers if h.type is None or H.type_names(h.type) & OVERFLOW), None)
-                marks = {t.attr for s_ in (h.body if h is not None else []) for x in ast.walk(s_) for t in (x.targets if isinstance(x, ast.Assign) else [x.target] if isinstance(x, (ast.AugAssign, ast.AnnAssign)) else [])
-                         if isinstance(t, ast.Attribute) and norm(t.value) == selfn}
-                ok = h is not None and bool(marks)
-                rep.ob("C08.y-numeric-aggregate-arithmetic-overflow", ag, "%s.update" % cname, a, ok,
-                       "OverflowError makes the aggregate an error (self.%s)" % sorted(marks) if ok else
-                       "the OverflowError of adding an integer beyond the double range to a float is %s: it leaves update() and Aggregator.update, and the query raises instead of leaving the variable unbound" % (
-                           "not caught here" if h is None else "caught without recording it"), node=a)
-        # (z)
-        tracks = any(isinstance(t, ast.Attribute) and t.attr == "datatype" and norm(t.value) == selfn
-                     for a in own_nodes(upd) if isinstance(a, (ast.Assign, ast.AugAssign, ast.AnnAssign)) for t in (a.targets if isinstance(a, ast.Assign) else [a.target]))
-        if not tracks:
-            continue
-        n_dt += 1
-        gowner, gv = resolved(cname, "get_value")
-        if gv is None:
-            raise AnalysisError("%s: get_value() not resolved" % cname)
-        gself = gv.args.args[0].arg
-        for c in own_nodes(gv):
-            if not (isinstance(c, ast.Call) and norm(c.func) == "Literal" and c.args):
+                def uses_number(e) -> bool:
+                    return any(x in numcalls or (isinstance(x, ast.Name) and x.id in numnames) for x in ast.walk(e))
+
+                arith = [n for n in own_nodes(upd) if uses_number(n) and (
+                    (isinstance(n, ast.Call) and isinstance(n.func, ast.Name) and n.func.id == "sum") or
+                    (isinstance(n, ast.BinOp) and isinstance(n.op, (ast.Add, ast.Sub, ast.Mult))) or
+                    (isinstance(n, ast.AugAssign) and isinstance(n.op, (ast.Add, ast.Sub, ast.Mult))))]
+                if not arith:
+                    raise AnalysisError("%s.update: the addition of the converted number not found" % owner)
+                for a in arith:
+                    tries = [t for t in enclosing(ag, a, (ast.Try,), upd) if any(a in ast.walk(s_) for s_ in t.body)]
+                    h = next((h for t in tries for h in t.handlers if h.type is None or H.type_names(h.type) & OVERFLOW), None)
+                    marks = {t.attr for s_ in (h.body if h is not None else []) for x in ast.walk(s_) for t in (x.targets if isinstance(x, ast.Assign) else [x.target] if isinstance(x, (ast.AugAssign, ast.AnnAssign)) else [])
+                             if isinstance(t, ast.Attribute) and norm(t.value) == selfn}
+                    ok = h is not None and bool(marks)
+                    rep.ob("C08.y-numeric-aggregate-arithmetic-overflow", ag, "%s.update" % cname, a, ok,
+                           "OverflowError makes the aggregate an error (self.%s)" % sorted(marks) if ok else
+                           "the OverflowError of adding an integer beyond the double range to a float is %s: it leaves update() and Aggregator.update, and the query raises instead of leaving the variable unbound" % (
+                               "not caught here" if h is None else "caught without recording it"), node=a)
+        if n_num < 2:
+            raise AnalysisError("expected SUM and AVG to convert with numeric() (found %d)" % n_num)
+
+    _layer(rep, _sec_y, repo)
+
+    def _sec_z(repo: Repo, rep: Report) -> None:
+        rep.rule("C08.z-aggregate-result-datatype",
+                 "an accumulator whose update() tracks the promoted datatype of its operands in self.datatype builds the literal it answers with `datatype=self.datatype` wherever more than one "
+                 "datatype is possible for the same Python value - unconditionally, or in the branch of a test of self.datatype against several datatypes: Literal(<float>) alone is always "
+                 "xsd:double, so AVG over \"1.5\"^^xsd:float, \"2.5\"^^xsd:float answers an xsd:double where SUM answers an xsd:float", floor=2)
+        n_dt = 0
+        for cname in concrete_accumulators():
+            owner, upd = resolved(cname, "update")
+            if upd is None:
+                raise AnalysisError("%s: update() not resolved" % cname)
+            selfn = upd.args.args[0].arg
+            # (z)
+            tracks = any(isinstance(t, ast.Attribute) and t.attr == "datatype" and norm(t.value) == selfn
+                         for a in own_nodes(upd) if isinstance(a, (ast.Assign, ast.AugAssign, ast.AnnAssign)) for t in (a.targets if isinstance(a, ast.Assign) else [a.target]))
+            if not tracks:
                 continue
-            ctx_kind = "unconditional"
-            child = c
-            for p_ in ag.parents(c):
-                if isinstance(p_, ast.If) and any(isinstance(a, ast.Attribute) and a.attr == "datatype" and norm(a.value) == gself for a in ast.walk(p_.test)):
-                    t = p_.test
-                    several = isinstance(t, ast.Compare) and len(t.ops) == 1 and isinstance(t.ops[0], ast.In) and isinstance(t.comparators[0], (ast.Tuple, ast.List, ast.Set)) and len(t.comparators[0].elts) > 1
-                    ctx_kind = "several" if several and child in p_.body else "decided"
-                    break
-                if p_ is gv:
-                    break
-                child = p_
-            reads_state = any(isinstance(a, ast.Attribute) and norm(a.value) == gself for a in ast.walk(c.args[0]))
-            if ctx_kind == "decided" or not reads_state:
-                continue  # one datatype follows from the branch (integers average to a decimal) / a constant (the empty group)
-            ok = any(k.arg == "datatype" and any(isinstance(a, ast.Attribute) and a.attr == "datatype" and norm(a.value) == gself for a in ast.walk(k.value)) for k in c.keywords)
-            rep.ob("C08.z-aggregate-result-datatype", ag, "%s.get_value" % cname, c, ok,
-                   "carries the tracked datatype" if ok else "%s.update tracks the datatype of the operands, but this result (%s) is built without it: Literal() derives the datatype from the "
-                   "Python value alone, so an xsd:float (or any derived numeric type) operand gives an answer of another datatype" % (owner, "for any datatype" if ctx_kind == "unconditional" else "in the branch for several datatypes"), node=c)
-    if n_num < 2 or n_dt < 2:
-        raise AnalysisError("expected SUM and AVG to convert with numeric() and to track self.datatype (found %d / %d)" % (n_num, n_dt))
-
-    # ------------------------------------------------------------------ (aa)  F281
-    rep.rule("C08.aa-islice-bounds-clamped",
-             "every bound handed to itertools.islice that is computed from a field of the algebra node (LIMIT / OFFSET are arbitrary integers of the query) goes through min(<bound>, <a limit "
-             "that does not depend on the node>): islice() raises ValueError for an int above sys.maxsize, and it does so when the result is consumed. `LIMIT 9223372036854775807 OFFSET 1` "
-             "(the `no limit` of generated queries) has start + length = sys.maxsize + 1", floor=2)
-    n_isl = 0
-    for mname, m in sorted(repo.modules.items()):
-        if not mname.startswith("rdflib.plugins.sparql"):
-            continue
-        for q, f in m.functions():
-            params = {a.arg for a in f.args.args}
-            for c in own_nodes(f):
-                if not (isinstance(c, ast.Call) and norm(c.func).split(".")[-1] == "islice" and len(c.args) >= 2):
+            n_dt += 1
+            gowner, gv = resolved(cname, "get_value")
+            if gv is None:
+                raise AnalysisError("%s: get_value() not resolved" % cname)
+            gself = gv.args.args[0].arg
+            for c in own_nodes(gv):
+                if not (isinstance(c, ast.Call) and norm(c.func) == "Literal" and c.args):
                     continue
+                ctx_kind = "unconditional"
+                child = c
+                for p_ in ag.parents(c):
+                    if isinstance(p_, ast.If) and any(isinstance(a, ast.Attribute) and a.attr == "datatype" and norm(a.value) == gself for a in ast.walk(p_.test)):
+                        t = p_.test
+                        several = isinstance(t, ast.Compare) and len(t.ops) == 1 and isinstance(t.ops[0], ast.In) and isinstance(t.comparators[0], (ast.Tuple, ast.List, ast.Set)) and len(t.comparators[0].elts) > 1
+                        ctx_kind = "several" if several and child in p_.body else "decided"
+                        break
+                    if p_ is gv:
+                        break
+                    child = p_
+                reads_state = any(isinstance(a, ast.Attribute) and norm(a.value) == gself for a in ast.walk(c.args[0]))
+                if ctx_kind == "decided" or not reads_state:
+                    continue  # one datatype follows from the branch (integers average to a decimal) / a constant (the empty group)
+                ok = any(k.arg == "datatype" and any(isinstance(a, ast.Attribute) and a.attr == "datatype" and norm(a.value) == gself for a in ast.walk(k.value)) for k in c.keywords)
+                rep.ob("C08.z-aggregate-result-datatype", ag, "%s.get_value" % cname, c, ok,
+                       "carries the tracked datatype" if ok else "%s.update tracks the datatype of the operands, but this result (%s) is built without it: Literal() derives the datatype from the "
+                       "Python value alone, so an xsd:float (or any derived numeric type) operand gives an answer of another datatype" % (owner, "for any datatype" if ctx_kind == "unconditional" else "in the branch for several datatypes"), node=c)
+        if n_dt < 2:
+            raise AnalysisError("expected SUM and AVG to track self.datatype (found %d)" % n_dt)
 
-                def alternatives(e, depth=0):
-                    if isinstance(e, ast.IfExp):
-                        return alternatives(e.body, depth) + alternatives(e.orelse, depth)
-                    if isinstance(e, ast.Name) and e.id not in params and depth < 3:
-                        vals = H.local_values(f, e.id)
-                        if vals:
-                            return [x for v in vals for x in alternatives(v, depth + 1)]
-                    return [e]
+    _layer(rep, _sec_z, repo)
 
-                def from_node(e) -> bool:
-                    return any(isinstance(a, ast.Attribute) and isinstance(a.value, ast.Name) and a.value.id in params for a in ast.walk(e))
+    def _sec_aa(repo: Repo, rep: Report) -> None:
+        # ------------------------------------------------------------------ (aa)  F281
+        rep.rule("C08.aa-islice-bounds-clamped",
+                 "every bound handed to itertools.islice that is computed from a field of the algebra node (LIMIT / OFFSET are arbitrary integers of the query) goes through min(<bound>, <a limit "
+                 "that does not depend on the node>): islice() raises ValueError for an int above sys.maxsize, and it does so when the result is consumed. `LIMIT 9223372036854775807 OFFSET 1` "
+                 "(the `no limit` of generated queries) has start + length = sys.maxsize + 1", floor=2)
+        n_isl = 0
+        for mname, m in sorted(repo.modules.items()):
+            if not mname.startswith("rdflib.plugins.sparql"):
+                continue
+            for q, f in m.functions():
+                params = {a.arg for a in f.args.args}
+                for c in own_nodes(f):
+                    if not (isinstance(c, ast.Call) and norm(c.func).split(".")[-1] == "islice" and len(c.args) >= 2):
+                        continue
 
-                for i, b in enumerate(c.args[1:], 1):
-                    for e in alternatives(b):
-                        e = H.subst_locals(f, e, params)  # in terms of the parameters: `offset = part.start` is a copy, not another source
-                        if not from_node(e):
-                            continue
-                        n_isl += 1
-                        ok = isinstance(e, ast.Call) and norm(e.func) == "min" and len(e.args) == 2 and sum(1 for a in e.args if from_node(a)) == 1
-                        rep.ob("C08.aa-islice-bounds-clamped", m, q, "islice bound %d: %s" % (i, norm(e)), ok,
-                               "clamped" if ok else "%s reaches islice() as it is: a LIMIT / OFFSET (or their sum) above sys.maxsize raises ValueError when the result is consumed" % norm(e), node=c)
-    if not n_isl:
-        raise AnalysisError("no islice() with bounds taken from an algebra node found: rule C08.aa has lost its anchor")
+                    def alternatives(e, depth=0):
+                        if isinstance(e, ast.IfExp):
+                            return alternatives(e.body, depth) + alternatives(e.orelse, depth)
+                        if isinstance(e, ast.Name) and e.id not in params and depth < 3:
+                            vals = H.local_values(f, e.id)
+                            if vals:
+                                return [x for v in vals for x in alternatives(v, depth + 1)]
+                        return [e]
 
-    # ------------------------------------------------------------------ (ab)  F282
-    rep.rule("C08.ab-select-star-scope",
-             "algebra._findVars (the visitor `translate` runs over the WHERE clause to find what SELECT * projects) stops - returns a value, which ends traverse()'s descent - at every production "
-             "whose content is not in scope (SPARQL 18.2.1): Bind (only its variable), SubSelect (only its projection), Filter (nothing: the expression and its EXISTS patterns bind nothing) and "
-             "MinusGraphPattern (nothing: the right operand of MINUS). Otherwise `SELECT * { ?s ?p ?o FILTER NOT EXISTS { ?s :q ?z } }` has an always-unbound column ?z", floor=4)
-    tr = alg.func("translate")
-    if not any(isinstance(n, ast.Name) and n.id == "_findVars" for n in ast.walk(tr)):
-        raise AnalysisError("algebra.translate no longer collects the SELECT * variables with _findVars")
-    fv = alg.func("_findVars")
-    fx, fres = fv.args.args[0].arg, fv.args.args[1].arg
-    gp = H.grammar_params(par)
-    branches = H.name_branches(fv, fx, alg)
-    for K, adds_nothing in (("Bind", False), ("SubSelect", False), ("Filter", True), ("MinusGraphPattern", True)):
-        if K not in gp:
-            raise AnalysisError("parser.py: production %s not found" % K)
-        brs = [br for ks, br in branches if K in ks]
-        stops = any(H.always_returns_value(br.body) for br in brs)
-        collects = [c for br in brs for s_ in br.body for c in ast.walk(s_) if isinstance(c, ast.Call) and isinstance(c.func, ast.Attribute) and norm(c.func.value) == fres]
-        ok = stops and not (adds_nothing and collects)
-        rep.ob("C08.ab-select-star-scope", alg, "_findVars", "stops at %s" % K, ok,
-               "not descended into" if ok else ("%s is descended into: the variables that occur only inside it (not in scope) are projected by SELECT * as columns that are never bound" % K if not stops
-                                              else "the branch for %s collects variables (%s) although nothing in it is in scope" % (K, norm(collects[0]))), node=brs[0] if brs else fv)
+                    def from_node(e) -> bool:
+                        return any(isinstance(a, ast.Attribute) and isinstance(a.value, ast.Name) and a.value.id in params for a in ast.walk(e))
 
-    # ------------------------------------------------------------------ (ac)  F283
-    rep.rule("C08.ac-exists-pattern-translated-in-modifiers",
-             "the expressions that carry a graph pattern (grammar: Builtin_* productions with a `graph` parameter - EXISTS, NOT EXISTS) may be written wherever an Expression may: algebra.translate "
-             "hands every such clause of the query (projection, groupby, having, orderby) to translateExists, whose visitor knows each of these productions, and _sample (the SAMPLE rewrite of an "
-             "aggregate query) returns such a node unchanged instead of rewriting the variables of its pattern. `... GROUP BY ?s HAVING (EXISTS { ?s :q ?z })` otherwise reaches evalPart with the parse "
-             "tree of the pattern: 'I dont know: GroupGraphPatternSub'", floor=8)
-    carriers = sorted(k for k, (allp, _o) in gp.items() if k.startswith("Builtin_") and "graph" in allp)
-    if len(carriers) < 2:
-        raise AnalysisError("parser.py: Builtin_EXISTS / Builtin_NOTEXISTS productions with a `graph` parameter not found (%s)" % carriers)
-    tq = tr.args.args[0].arg
-    covered: set[str] = set()
-    for c in own_nodes(tr):
-        if isinstance(c, ast.Call) and isinstance(c.func, ast.Name) and c.func.id == "translateExists":
-            for a in c.args:
-                for x in ast.walk(a):
-                    if isinstance(x, ast.Attribute) and norm(x.value) == tq:
-                        covered.add(x.attr)
-                    if isinstance(x, ast.Name):
-                        for l in enclosing(alg, c, (ast.For,), tr):
-                            if isinstance(l.target, ast.Name) and l.target.id == x.id and isinstance(l.iter, (ast.Tuple, ast.List)):
-                                covered |= {e.attr for e in l.iter.elts if isinstance(e, ast.Attribute) and norm(e.value) == tq}
-    for clause, where in (("projection", "SELECT (EXISTS {...} AS ?b)"), ("groupby", "GROUP BY (EXISTS {...})"), ("having", "HAVING (EXISTS {...})"), ("orderby", "ORDER BY (EXISTS {...})")):
-        if not any(isinstance(a, ast.Attribute) and a.attr == clause and norm(a.value) == tq for a in own_nodes(tr)):
-            raise AnalysisError("algebra.translate no longer reads %s.%s" % (tq, clause))
-        ok = clause in covered
-        rep.ob("C08.ac-exists-pattern-translated-in-modifiers", alg, "translate", "%s.%s goes through translateExists" % (tq, clause), ok,
-               "translated" if ok else "the %s clause is put into the algebra without translateExists: the pattern of `%s` stays a parse tree, which evalPart does not know" % (clause, where), node=tr)
-    te = alg.func("translateExists")
-    te_names = {x.value for x in ast.walk(te) if isinstance(x, ast.Constant) and isinstance(x.value, str)}
-    sm = alg.func("_sample")
-    se = sm.args.args[0].arg
-    sm_br = H.name_branches(sm, se, alg)
-    for K in carriers:
-        ok = K in te_names
-        rep.ob("C08.ac-exists-pattern-translated-in-modifiers", alg, "translateExists", "knows %s" % K, ok, "" if ok else "translateExists does not translate the pattern of %s" % K, node=te)
-        ok = any(K in ks and any(isinstance(r, ast.Return) and isinstance(r.value, ast.Name) and r.value.id == se for r in br.body) for ks, br in sm_br)
-        rep.ob("C08.ac-exists-pattern-translated-in-modifiers", alg, "_sample", "returns a %s node unchanged" % K, ok,
-               "its pattern is not rewritten" if ok else "_sample descends into the pattern of %s and replaces its variables by SAMPLE(?v): the pattern is matched with the solution of the group "
-               "substituted, `HAVING (EXISTS { ?s :q ?z })` becomes a pattern over aggregate calls" % K, node=sm)
+                    for i, b in enumerate(c.args[1:], 1):
+                        for e in alternatives(b):
+                            e = H.subst_locals(f, e, params)  # in terms of the parameters: `offset = part.start` is a copy, not another source
+                            if not from_node(e):
+                                continue
+                            n_isl += 1
+                            ok = isinstance(e, ast.Call) and norm(e.func) == "min" and len(e.args) == 2 and sum(1 for a in e.args if from_node(a)) == 1
+                            rep.ob("C08.aa-islice-bounds-clamped", m, q, "islice bound %d: %s" % (i, norm(e)), ok,
+                                   "clamped" if ok else "%s reaches islice() as it is: a LIMIT / OFFSET (or their sum) above sys.maxsize raises ValueError when the result is consumed" % norm(e), node=c)
+        if not n_isl:
+            raise AnalysisError("no islice() with bounds taken from an algebra node found: rule C08.aa has lost its anchor")
+
+    _layer(rep, _sec_aa, repo)
+
+    def _sec_ab(repo: Repo, rep: Report) -> None:
+        # ------------------------------------------------------------------ (ab)  F282
+        rep.rule("C08.ab-select-star-scope",
+                 "algebra._findVars (the visitor `translate` runs over the WHERE clause to find what SELECT * projects) stops - returns a value, which ends traverse()'s descent - at every production "
+                 "whose content is not in scope (SPARQL 18.2.1): Bind (only its variable), SubSelect (only its projection), Filter (nothing: the expression and its EXISTS patterns bind nothing) and "
+                 "MinusGraphPattern (nothing: the right operand of MINUS). Otherwise `SELECT * { ?s ?p ?o FILTER NOT EXISTS { ?s :q ?z } }` has an always-unbound column ?z", floor=4)
+        tr = alg.func("translate")
+        if not any(isinstance(n, ast.Name) and n.id == "_findVars" for n in ast.walk(tr)):
+            raise AnalysisError("algebra.translate no longer collects the SELECT * variables with _findVars")
+        fv = alg.func("_findVars")
+        fx, fres = fv.args.args[0].arg, fv.args.args[1].arg
+        gp = H.grammar_params(par)
+        branches = H.name_branches(fv, fx, alg)
+        for K, adds_nothing in (("Bind", False), ("SubSelect", False), ("Filter", True), ("MinusGraphPattern", True)):
+            if K not in gp:
+                raise AnalysisError("parser.py: production %s not found" % K)
+            brs = [br for ks, br in branches if K in ks]
+            stops = any(H.always_returns_value(br.body) for br in brs)
+            collects = [c for br in brs for s_ in br.body for c in ast.walk(s_) if isinstance(c, ast.Call) and isinstance(c.func, ast.Attribute) and norm(c.func.value) == fres]
+            ok = stops and not (adds_nothing and collects)
+            rep.ob("C08.ab-select-star-scope", alg, "_findVars", "stops at %s" % K, ok,
+                   "not descended into" if ok else ("%s is descended into: the variables that occur only inside it (not in scope) are projected by SELECT * as columns that are never bound" % K if not stops
+                                                  else "the branch for %s collects variables (%s) although nothing in it is in scope" % (K, norm(collects[0]))), node=brs[0] if brs else fv)
+
+    _layer(rep, _sec_ab, repo)
+
+    def _sec_ac(repo: Repo, rep: Report) -> None:
+        # ------------------------------------------------------------------ (ac)  F283
+        rep.rule("C08.ac-exists-pattern-translated-in-modifiers",
+                 "the expressions that carry a graph pattern (grammar: Builtin_* productions with a `graph` parameter - EXISTS, NOT EXISTS) may be written wherever an Expression may: algebra.translate "
+                 "hands every such clause of the query (projection, groupby, having, orderby) to translateExists, whose visitor knows each of these productions, and _sample (the SAMPLE rewrite of an "
+                 "aggregate query) returns such a node unchanged instead of rewriting the variables of its pattern. `... GROUP BY ?s HAVING (EXISTS { ?s :q ?z })` otherwise reaches evalPart with the parse "
+                 "tree of the pattern: 'I dont know: GroupGraphPatternSub'", floor=8)
+        gp = H.grammar_params(par)
+        tr = alg.func("translate")
+        carriers = sorted(k for k, (allp, _o) in gp.items() if k.startswith("Builtin_") and "graph" in allp)
+        if len(carriers) < 2:
+            raise AnalysisError("parser.py: Builtin_EXISTS / Builtin_NOTEXISTS productions with a `graph` parameter not found (%s)" % carriers)
+        tq = tr.args.args[0].arg
+        covered: set[str] = set()
+        for c in own_nodes(tr):
+            if isinstance(c, ast.Call) and isinstance(c.func, ast.Name) and c.func.id == "translateExists":
+                for a in c.args:
+                    for x in ast.walk(a):
+                        if isinstance(x, ast.Attribute) and norm(x.value) == tq:
+                            covered.add(x.attr)
+                        if isinstance(x, ast.Name):
+                            for l in enclosing(alg, c, (ast.For,), tr):
+                                if isinstance(l.target, ast.Name) and l.target.id == x.id and isinstance(l.iter, (ast.Tuple, ast.List)):
+                                    covered |= {e.attr for e in l.iter.elts if isinstance(e, ast.Attribute) and norm(e.value) == tq}
+        for clause, where in (("projection", "SELECT (EXISTS {...} AS ?b)"), ("groupby", "GROUP BY (EXISTS {...})"), ("having", "HAVING (EXISTS {...})"), ("orderby", "ORDER BY (EXISTS {...})")):
+            if not any(isinstance(a, ast.Attribute) and a.attr == clause and norm(a.value) == tq for a in own_nodes(tr)):
+                raise AnalysisError("algebra.translate no longer reads %s.%s" % (tq, clause))
+            ok = clause in covered
+            rep.ob("C08.ac-exists-pattern-translated-in-modifiers", alg, "translate", "%s.%s goes through translateExists" % (tq, clause), ok,
+                   "translated" if ok else "the %s clause is put into the algebra without translateExists: the pattern of `%s` stays a parse tree, which evalPart does not know" % (clause, where), node=tr)
+        te = alg.func("translateExists")
+        te_names = {x.value for x in ast.walk(te) if isinstance(x, ast.Constant) and isinstance(x.value, str)}
+        sm = alg.func("_sample")
+        se = sm.args.args[0].arg
+        sm_br = H.name_branches(sm, se, alg)
+        for K in carriers:
+            ok = K in te_names
+            rep.ob("C08.ac-exists-pattern-translated-in-modifiers", alg, "translateExists", "knows %s" % K, ok, "" if ok else "translateExists does not translate the pattern of %s" % K, node=te)
+            ok = any(K in ks and any(isinstance(r, ast.Return) and isinstance(r.value, ast.Name) and r.value.id == se for r in br.body) for ks, br in sm_br)
+            rep.ob("C08.ac-exists-pattern-translated-in-modifiers", alg, "_sample", "returns a %s node unchanged" % K, ok,
+                   "its pattern is not rewritten" if ok else "_sample descends into the pattern of %s and replaces its variables by SAMPLE(?v): the pattern is matched with the solution of the group "
+                   "substituted, `HAVING (EXISTS { ?s :q ?z })` becomes a pattern over aggregate calls" % K, node=sm)
+
+    _layer(rep, _sec_ac, repo)
+
